@@ -2,6 +2,7 @@
    types with work in flight.  The model keeps the whole history as a ghost
    field ([hist], newest first), so every clause is a state invariant. *)
 From UV Require Import Lib.Base Model.CloseProto.
+From Coq Require Import Permutation.
 Local Open Scope Z_scope.
 
 Ltac splits := repeat match goal with |- _ /\ _ => split end.
@@ -1212,15 +1213,15 @@ Proof.
   intros h' [Ha|(r & Hr & _)] _; [|discriminate]. simpl in Ha. inversion Ha; subst. exact Hd.
 Qed.
 
-Lemma stat_done_spec b l :
-  let '(l', r) := stat_done b l in
+Lemma stat_done_spec b l : forall hd,
+  let '(l', r) := stat_done b hd l in
   (l = [] <-> l' = []) /\ (l <> [] -> l' <> []).
 Proof.
-  induction l as [|c l IH]; simpl.
+  induction l as [|c l IH]; intros hd; simpl.
   - split; [tauto|auto].
-  - destruct (stat_done b l) as [l' [r|]].
+  - destruct (stat_done b false l) as [l' [r|]].
     + split; [split; discriminate|intros _; discriminate].
-    + destruct (c_stat c); [destruct b|]; (split; [split; discriminate|intros _; discriminate]).
+    + destruct (c_stat c); [destruct (b || negb hd)|]; (split; [split; discriminate|intros _; discriminate]).
 Qed.
 
 Lemma fp_stat_inv dl s h : Inv dl s -> Inv dl (fp_stat s h).
@@ -1237,8 +1238,8 @@ Proof.
   assert (I0 : Inv dl s0).
   { unfold s0. apply Inv_emit_op with (h := h); auto.
     apply Inv_emit; auto; try discriminate. intros h' [Ha|(r & Hr & _)]; discriminate. }
-  pose proof (stat_done_spec (negb (h_active (hget s h)) || h_closing (hget s h)) (h_ctxs (hget s h))) as SD.
-  destruct (stat_done (negb (h_active (hget s h)) || h_closing (hget s h)) (h_ctxs (hget s h))) as [l r].
+  pose proof (stat_done_spec (negb (h_active (hget s h)) || h_closing (hget s h)) (h_ctxs (hget s h)) true) as SD.
+  destruct (stat_done (negb (h_active (hget s h)) || h_closing (hget s h)) true (h_ctxs (hget s h))) as [l r].
   destruct SD as (_ & SD). specialize (SD Ne).
   assert (I1 : Inv dl (upd_h s0 h (w_ctxs l))).
   { apply Inv_upd; auto. pose proof (j_h _ _ I0 h Hv) as K0. destruct K0.
@@ -1398,7 +1399,7 @@ Proof.
       exists [EIn (OBatch h)]. split; [reflexivity|]. constructor; [intros h'; discriminate|constructor].
   - unfold h_cb. destruct (usable s h); [|apply appends_refl]. apply ccallback_nocl. intros h'. discriminate.
   - unfold fp_stat. match goal with |- appends _ _ (if ?c then _ else _) => destruct c end; [|apply appends_refl].
-    destruct (stat_done _ _) as [l [[c [|]]|]];
+    destruct (stat_done _ _ _) as [l [[c [|]]|]];
       (exists [EIn (OFpStat h); ETouch h]; split; [reflexivity|];
        constructor; [intros h'; discriminate|constructor; [intros h'; discriminate|constructor]]).
 Qed.
@@ -1487,24 +1488,18 @@ Proof.
     + right. split; [apply (k_ty _ _ _ _ K H)|exact H].
 Qed.
 
-(* the full statement fails for fs_poll: start, stop, start again while the
-   first stat is in flight, both stats complete, close: the superseded
-   context keeps its timer, nothing is queued, nothing is in flight, and the
-   close callback is never delivered *)
-Definition refuting_script : list cop :=
-  [OInit TFsPoll; OFpStart 0; OFpStop 0; OFpStart 0; OFpStat 0; OFpStat 0; OClose 0;
-   OPhase; OPhase; OPhase].
-
-Theorem close_cb_eventually_refuted :
-  exists os beh h,
-    let s := final os beh in
-    clq s = [] /\ hvalid s h = true /\ h_closing (hget s h) = true /\
-    has_stat (h_ctxs (hget s h)) = false /\ ~ In (ECloseCb h) (ctrace os beh).
-Proof.
-  exists refuting_script, (fun _ => []), 0%nat. vm_compute.
-  repeat split; try reflexivity. intros H.
-  repeat (destruct H as [H|H]; [discriminate|]). exact H.
-Qed.
+(* (Before the repair of poll_cb in fs-poll.c -- /repo 834ed95 -- the model had
+   a refuting script here: start, stop, start again while the first stat is in
+   flight, both stats complete, close: the superseded context re-armed its
+   timer and the close callback was never delivered.  With the repaired code
+   that script ends with the close callback: see the Example below.) *)
+Example fs_poll_restart_now_closes :
+  ctrace [OInit TFsPoll; OFpStart 0; OFpStop 0; OFpStart 0; OFpStat 0; OFpStat 0; OClose 0;
+          OPhase; OPhase; OPhase] (fun _ => []) =
+  [EIn (OInit TFsPoll); EIn (OFpStart 0); EIn (OFpStop 0); EIn (OFpStart 0);
+   ETouch 0; EIn (OFpStat 0); ETouch 0; EIn (OFpStat 0); EIn (OClose 0);
+   EIn OPhase; ETouch 0; ETouch 0; EIn OPhase; ECloseCb 0; EIn OPhase].
+Proof. vm_compute. reflexivity. Qed.
 
 (* everything the handle owned is released when the close callback runs *)
 Theorem resources_released os beh :
@@ -1527,3 +1522,1998 @@ Example close_cb_eventually_partial_nontrivial :
    EReqCb 3 UV_ECANCELED true; EReqCb 4 UV_ECANCELED true; ECloseCb 0;
    ETouch 1; EIn (OFpStat 1); EIn OPhase; ETouch 1; EIn OPhase; ECloseCb 1].
 Proof. vm_compute. reflexivity. Qed.
+
+(* ================================================================== *)
+(* requests: every request accepted on h has exactly one callback     *)
+(* before CloseCb h, with UV_ECANCELED iff it had not completed        *)
+(* ================================================================== *)
+Definition is_reqcb (r : nat) (e : cev) : bool :=
+  match e with EReqCb r' _ _ => Nat.eqb r' r | _ => false end.
+Definition cnt (r : nat) (l : list cev) : nat := length (filter (is_reqcb r) l).
+Definition done_in (r : nat) (l : list cev) : Prop := exists st, In (EIn (ODone r st)) l.
+(* the status handed to the callback for a recorded system-call result *)
+Definition mapped (st st' : Z) : Prop := st = st' \/ (0 <= st' /\ st = 0).
+
+Lemma cnt_cons r e l : cnt r (e :: l) = (if is_reqcb r e then S (cnt r l) else cnt r l).
+Proof. unfold cnt. simpl. destruct (is_reqcb r e); reflexivity. Qed.
+
+Lemma cnt_app r a b : cnt r (a ++ b) = (cnt r a + cnt r b)%nat.
+Proof. unfold cnt. rewrite filter_app, app_length. reflexivity. Qed.
+
+Lemma cnt_rev r l : cnt r (rev l) = cnt r l.
+Proof.
+  induction l as [|e l IH]; [reflexivity|]. simpl. rewrite cnt_app, IH, !cnt_cons.
+  change (cnt r []) with O. destruct (is_reqcb r e); lia.
+Qed.
+
+Lemma cbstatus_mapped t st : mapped (cbstatus t st) st.
+Proof.
+  unfold mapped, cbstatus. destruct t; auto. destruct (Z.leb_spec 0 st); [right; auto|left; auto].
+Qed.
+
+Lemma cbstatus_cancel t : cbstatus t UV_ECANCELED = UV_ECANCELED.
+Proof. destruct t; reflexivity. Qed.
+
+Definition pending (dw : list nat) (s : cstate) (r : nat) : Prop :=
+  In r dw \/ exists h, hvalid s h = true /\ In r (qreqs (hget s h)).
+
+(* state part: the request queues are duplicate-free and disjoint, respect the
+   handle type, and are empty on a closed handle *)
+Record QOK (dw : list nat) (s : cstate) : Prop := {
+  q_nd : forall h, hvalid s h = true -> NoDup (qreqs (hget s h));
+  q_dwnd : NoDup dw;
+  q_dw : forall r, In r dw -> lookup r (owner s) <> None /\
+                               forall h, hvalid s h = true -> ~ In r (qreqs (hget s h));
+  q_ty : forall h, hvalid s h = true ->
+         (h_ty (hget s h) <> TStream -> h_conn (hget s h) = None /\ h_shut (hget s h) = None) /\
+         (h_ty (hget s h) <> TStream -> h_ty (hget s h) <> TUdp -> h_wq (hget s h) = [] /\ h_cq (hget s h) = []);
+  q_closed : forall h, hvalid s h = true -> h_closed (hget s h) = true -> qreqs (hget s h) = []
+}.
+
+(* history part: a pending request has had no callback, any other accepted
+   request exactly one; at every CloseCb h all requests accepted on h had one *)
+Record HR (dw : list nat) (s : cstate) : Prop := {
+  r_pend : forall r, lookup r (owner s) <> None -> pending dw s r -> cnt r (hist s) = O;
+  r_deliv : forall r, lookup r (owner s) <> None -> ~ pending dw s r -> cnt r (hist s) = 1%nat;
+  r_sub : forall h r k, In (EIn (OSubmit h r k)) (hist s) -> lookup r (owner s) = Some h;
+  r_good : forall later h earlier, hist s = later ++ ECloseCb h :: earlier ->
+           forall r k, In (EIn (OSubmit h r k)) earlier -> cnt r earlier = 1%nat
+}.
+
+Definition RInv (dw : list nat) (s : cstate) : Prop := QOK dw s /\ HR dw s.
+
+Lemma hvalid_cinit h : hvalid cinit h = true -> False.
+Proof. unfold hvalid. simpl. discriminate. Qed.
+
+Lemma RInv_init : RInv [] cinit.
+Proof.
+  split; constructor; simpl.
+  - intros h H. destruct (hvalid_cinit h H).
+  - constructor.
+  - intros r [].
+  - intros h H. destruct (hvalid_cinit h H).
+  - intros h H. destruct (hvalid_cinit h H).
+  - intros r H. exfalso. apply H. reflexivity.
+  - intros r H. exfalso. apply H. reflexivity.
+  - intros h r k [].
+  - intros later h earlier H. destruct later; discriminate.
+Qed.
+
+(* the history part after a step that leaves the set of pending requests as it
+   is and appends at most events that are neither request callbacks, close
+   callbacks nor submissions *)
+Definition plain (e : cev) : Prop :=
+  (forall r, is_reqcb r e = false) /\ (forall h, e <> ECloseCb h) /\ (forall h r k, e <> EIn (OSubmit h r k)).
+
+Lemma list_split_mid {A} (l H later : list A) e earlier :
+  l ++ H = later ++ e :: earlier ->
+  (exists m, l = later ++ e :: m /\ earlier = m ++ H) \/ (exists m, later = l ++ m /\ H = m ++ e :: earlier).
+Proof.
+  revert later. induction l as [|x l IH]; intros later E.
+  - right. exists later. simpl in E. auto.
+  - destruct later as [|y later].
+    + left. simpl in E. inversion E; subst. exists l. auto.
+    + simpl in E. inversion E; subst. destruct (IH later H2) as [(m & E1 & E2)|(m & E1 & E2)].
+      * left. exists m. subst. auto.
+      * right. exists m. subst. auto.
+Qed.
+
+Lemma HR_keep dw dw' s s' l :
+  HR dw s -> hist s' = l ++ hist s -> Forall plain l -> owner s' = owner s ->
+  (forall r, pending dw' s' r <-> pending dw s r) ->
+  HR dw' s'.
+Proof.
+  intros R A P B PE. destruct R.
+  assert (CN : forall r, cnt r (hist s') = cnt r (hist s)).
+  { intros r. rewrite A, cnt_app. replace (cnt r l) with O; [reflexivity|].
+    clear A. induction l as [|e l IH]; [reflexivity|]. inversion P; subst.
+    rewrite cnt_cons. destruct H1 as (H1 & _). rewrite H1. apply IH. assumption. }
+  constructor; rewrite ?B.
+  - intros r Ho Hp. rewrite CN. apply r_pend0; auto. apply PE. exact Hp.
+  - intros r Ho Hp. rewrite CN. apply r_deliv0; auto. intros Hp'. apply Hp. apply PE. exact Hp'.
+  - intros h r k Hin. rewrite A in Hin. apply in_app_or in Hin. destruct Hin as [Hin|Hin]; [|eauto].
+    exfalso. rewrite Forall_forall in P. destruct (P _ Hin) as (_ & _ & H). eapply H; eauto.
+  - intros later h earlier Hs. rewrite A in Hs.
+    destruct (list_split_mid l (hist s) later (ECloseCb h) earlier Hs) as [(m & E1 & E2)|(m & E1 & E2)].
+    + (* the close event lies in l: impossible *)
+      exfalso. rewrite Forall_forall in P. assert (Hin : In (ECloseCb h) l) by (rewrite E1; apply in_or_app; right; left; reflexivity).
+      destruct (P _ Hin) as (_ & H & _). eapply H; eauto.
+    + apply (r_good0 m h earlier E2).
+Qed.
+
+Lemma pending_emit dw s e r : pending dw (emit s e) r <-> pending dw s r.
+Proof. reflexivity. Qed.
+
+(* a pending request gets its callback *)
+Lemma HR_deliver dw dw' s s1 r st cl :
+  HR dw s -> hist s1 = hist s -> owner s1 = owner s ->
+  lookup r (owner s) <> None -> pending dw s r ->
+  (forall r', pending dw' s1 r' <-> (pending dw s r' /\ r' <> r)) ->
+  HR dw' (emit s1 (EReqCb r st cl)).
+Proof.
+  intros R A B Ho Hp PE. destruct R.
+  assert (CN : forall r', cnt r' (hist (emit s1 (EReqCb r st cl))) =
+                          if Nat.eqb r r' then S (cnt r' (hist s)) else cnt r' (hist s)).
+  { intros r'. cbn [hist emit]. rewrite cnt_cons, A. reflexivity. }
+  constructor.
+  - intros r' Ho' Hp'. change (owner (emit s1 (EReqCb r st cl))) with (owner s1) in Ho'. rewrite B in Ho'.
+    apply pending_emit in Hp'. apply PE in Hp'. destruct Hp' as (Hp' & Hne).
+    rewrite CN. apply Nat.eqb_neq in Hne. rewrite Nat.eqb_sym, Hne. apply r_pend0; auto.
+  - intros r' Ho' Hp'. change (owner (emit s1 (EReqCb r st cl))) with (owner s1) in Ho'. rewrite B in Ho'.
+    rewrite CN. destruct (Nat.eqb r r') eqn:E.
+    + apply Nat.eqb_eq in E. subst r'. rewrite (r_pend0 r Ho Hp). reflexivity.
+    + apply r_deliv0; auto. intros Hq. apply Hp'. apply pending_emit. apply PE. split; [exact Hq|].
+      apply Nat.eqb_neq in E. congruence.
+  - intros h r' k Hin. change (owner (emit s1 (EReqCb r st cl))) with (owner s1). rewrite B.
+    cbn [hist emit] in Hin. destruct Hin as [Hin|Hin]; [discriminate|]. rewrite A in Hin. eauto.
+  - intros later h earlier Hs. cbn [hist emit] in Hs. destruct later as [|x later]; simpl in Hs; [discriminate|].
+    inversion Hs; subst x. rewrite A in H1. eapply r_good0; eauto.
+Qed.
+
+(* a fresh request is accepted *)
+Lemma HR_submit dw s s1 h r k :
+  HR dw s -> hist s1 = hist s -> owner s1 = (r, h) :: owner s ->
+  lookup r (owner s) = None -> cnt r (hist s) = O ->
+  (forall r', pending dw s1 r' <-> (pending dw s r' \/ r' = r)) ->
+  HR dw (emit s1 (EIn (OSubmit h r k))).
+Proof.
+  intros R A B Fr C0 PE. destruct R.
+  assert (CN : forall r', cnt r' (hist (emit s1 (EIn (OSubmit h r k)))) = cnt r' (hist s)).
+  { intros r'. cbn [hist emit]. rewrite cnt_cons, A. reflexivity. }
+  assert (LO : forall r', r' <> r -> lookup r' (owner s1) = lookup r' (owner s)).
+  { intros r' Hne. rewrite B. apply lookup_cons_other. congruence. }
+  constructor.
+  - intros r' Ho' Hp'. rewrite CN. destruct (Nat.eq_dec r' r) as [->|Hne]; [exact C0|].
+    change (owner (emit s1 (EIn (OSubmit h r k)))) with (owner s1) in Ho'. rewrite LO in Ho' by exact Hne.
+    apply r_pend0; auto. apply pending_emit in Hp'. apply PE in Hp'. destruct Hp'; [assumption|contradiction].
+  - intros r' Ho' Hp'. rewrite CN. destruct (Nat.eq_dec r' r) as [->|Hne].
+    + exfalso. apply Hp'. apply pending_emit. apply PE. auto.
+    + change (owner (emit s1 (EIn (OSubmit h r k)))) with (owner s1) in Ho'. rewrite LO in Ho' by exact Hne.
+      apply r_deliv0; auto. intros Hq. apply Hp'. apply pending_emit. apply PE. auto.
+  - intros h' r' k' Hin. change (owner (emit s1 (EIn (OSubmit h r k)))) with (owner s1).
+    cbn [hist emit] in Hin. destruct Hin as [Hin|Hin].
+    + inversion Hin; subst. rewrite B. apply lookup_cons_same.
+    + rewrite A in Hin. pose proof (r_sub0 h' r' k' Hin) as H. rewrite LO; [exact H|]. intros ->. congruence.
+  - intros later h' earlier Hs. cbn [hist emit] in Hs. destruct later as [|x later]; simpl in Hs; [discriminate|].
+    inversion Hs; subst x. rewrite A in H1. eapply r_good0; eauto.
+Qed.
+
+(* CloseCb h is appended when nothing accepted on h is pending any more *)
+Lemma HR_closecb dw s s1 h :
+  HR dw s -> hist s1 = hist s -> owner s1 = owner s ->
+  (forall r, pending dw s1 r <-> pending dw s r) ->
+  (forall r k, In (EIn (OSubmit h r k)) (hist s) -> ~ pending dw s r) ->
+  HR dw (emit s1 (ECloseCb h)).
+Proof.
+  intros R A B PE NP. pose proof R as R0. destruct R.
+  assert (CN : forall r', cnt r' (hist (emit s1 (ECloseCb h))) = cnt r' (hist s)).
+  { intros r'. cbn [hist emit]. rewrite cnt_cons, A. reflexivity. }
+  constructor.
+  - intros r' Ho' Hp'. rewrite CN. change (owner (emit s1 (ECloseCb h))) with (owner s1) in Ho'. rewrite B in Ho'.
+    apply r_pend0; auto. apply PE. exact Hp'.
+  - intros r' Ho' Hp'. rewrite CN. change (owner (emit s1 (ECloseCb h))) with (owner s1) in Ho'. rewrite B in Ho'.
+    apply r_deliv0; auto. intros Hq. apply Hp'. apply pending_emit. apply PE. exact Hq.
+  - intros h' r' k' Hin. change (owner (emit s1 (ECloseCb h))) with (owner s1). rewrite B.
+    cbn [hist emit] in Hin. destruct Hin as [Hin|Hin]; [discriminate|]. rewrite A in Hin. eauto.
+  - intros later h' earlier Hs. cbn [hist emit] in Hs. destruct later as [|x later]; simpl in Hs.
+    + inversion Hs; subst. rewrite A. intros r k Hin. apply r_deliv0.
+      * rewrite (r_sub0 h' r k Hin). discriminate.
+      * apply (NP r k Hin).
+    + inversion Hs; subst x. rewrite A in H1. eapply r_good0; eauto.
+Qed.
+
+(* state part: the record of one handle is rewritten *)
+Lemma QOK_upd dw dw' s h f :
+  QOK dw s -> hvalid s h = true ->
+  NoDup (qreqs (f (hget s h))) -> NoDup dw' ->
+  (forall r, In r dw' -> lookup r (owner s) <> None /\ ~ In r (qreqs (f (hget s h))) /\
+                          forall h', h' <> h -> hvalid s h' = true -> ~ In r (qreqs (hget s h'))) ->
+  ((h_ty (f (hget s h)) <> TStream -> h_conn (f (hget s h)) = None /\ h_shut (f (hget s h)) = None) /\
+   (h_ty (f (hget s h)) <> TStream -> h_ty (f (hget s h)) <> TUdp ->
+    h_wq (f (hget s h)) = [] /\ h_cq (f (hget s h)) = [])) ->
+  (h_closed (f (hget s h)) = true -> qreqs (f (hget s h)) = []) ->
+  QOK dw' (upd_h s h f).
+Proof.
+  intros Q Hv N1 N2 D T C. destruct Q.
+  constructor; auto.
+  - intros h' Hv'. rewrite hvalid_upd in Hv'. destruct (Nat.eq_dec h h') as [<-|Hne].
+    + rewrite hget_upd_same by exact Hv. exact N1.
+    + rewrite hget_upd_other by exact Hne. auto.
+  - intros r Hr. destruct (D r Hr) as (D1 & D2 & D3). split; [exact D1|].
+    intros h' Hv'. rewrite hvalid_upd in Hv'. destruct (Nat.eq_dec h h') as [<-|Hne].
+    + rewrite hget_upd_same by exact Hv. exact D2.
+    + rewrite hget_upd_other by exact Hne. apply D3; auto.
+  - intros h' Hv'. rewrite hvalid_upd in Hv'. destruct (Nat.eq_dec h h') as [<-|Hne].
+    + rewrite hget_upd_same by exact Hv. exact T.
+    + rewrite hget_upd_other by exact Hne. auto.
+  - intros h' Hv'. rewrite hvalid_upd in Hv'. destruct (Nat.eq_dec h h') as [<-|Hne].
+    + rewrite hget_upd_same by exact Hv. exact C.
+    + rewrite hget_upd_other by exact Hne. auto.
+Qed.
+
+Definition qf (x : hst) := (h_conn x, h_wq x, h_cq x, h_shut x, h_ty x).
+
+Lemma qf_eq x y : qf x = qf y ->
+  h_conn x = h_conn y /\ h_wq x = h_wq y /\ h_cq x = h_cq y /\ h_shut x = h_shut y /\ h_ty x = h_ty y /\
+  qreqs x = qreqs y.
+Proof. unfold qf, qreqs. intros E. inversion E. splits; auto. Qed.
+
+(* state part: queues, types, CLOSED flags and owners untouched *)
+Lemma QOK_same dw s s' :
+  QOK dw s -> owner s' = owner s ->
+  (forall h, hvalid s' h = true ->
+     (hvalid s h = true /\ qf (hget s' h) = qf (hget s h) /\
+      (h_closed (hget s' h) = true -> h_closed (hget s h) = true)) \/
+     (hvalid s h = false /\ h_conn (hget s' h) = None /\ h_wq (hget s' h) = [] /\ h_cq (hget s' h) = [] /\
+      h_shut (hget s' h) = None)) ->
+  QOK dw s'.
+Proof.
+  intros Q B X. destruct Q.
+  assert (QR : forall h, hvalid s' h = true ->
+                 (hvalid s h = true /\ qreqs (hget s' h) = qreqs (hget s h)) \/ qreqs (hget s' h) = []).
+  { intros h Hv. destruct (X h Hv) as [(V1 & E & _)|(_ & C1 & C2 & C3 & C4)].
+    - left. split; [exact V1|]. apply qf_eq in E. apply E.
+    - right. unfold qreqs. rewrite C1, C2, C3, C4. reflexivity. }
+  constructor; rewrite ?B; auto.
+  - intros h Hv. destruct (QR h Hv) as [(V1 & E)|E]; rewrite E; [auto|constructor].
+  - intros r Hr. destruct (q_dw0 r Hr) as (D1 & D2). split; [exact D1|].
+    intros h Hv. destruct (QR h Hv) as [(V1 & E)|E]; rewrite E; auto.
+  - intros h Hv. destruct (X h Hv) as [(V1 & E & _)|(_ & C1 & C2 & C3 & C4)].
+    + apply qf_eq in E. destruct E as (E1 & E2 & E3 & E4 & E5 & _). rewrite E1, E2, E3, E4, E5. auto.
+    + auto.
+  - intros h Hv Hc. destruct (X h Hv) as [(V1 & E & C)|(_ & C1 & C2 & C3 & C4)].
+    + apply qf_eq in E. destruct E as (_ & _ & _ & _ & _ & E). rewrite E. auto.
+    + unfold qreqs. rewrite C1, C2, C3, C4. reflexivity.
+Qed.
+
+(* ------------------------------------------------------------------ *)
+(* which steps leave the request queues alone                         *)
+(* ------------------------------------------------------------------ *)
+Definition QFS (s s' : cstate) : Prop := map qf (hs s') = map qf (hs s).
+
+Lemma QFS_refl s : QFS s s.
+Proof. reflexivity. Qed.
+
+Lemma QFS_trans a b c : QFS a b -> QFS b c -> QFS a c.
+Proof. unfold QFS. congruence. Qed.
+
+Lemma QFS_get s s' : QFS s s' -> forall h, hvalid s' h = hvalid s h /\ qf (hget s' h) = qf (hget s h).
+Proof.
+  unfold QFS. intros E h. split.
+  - unfold hvalid. rewrite <- (map_length qf (hs s')), <- (map_length qf (hs s)), E. reflexivity.
+  - unfold hget. rewrite <- !(map_nth qf). rewrite E. reflexivity.
+Qed.
+
+Lemma map_upd_inert {A B} (g : A -> B) (f : A -> A) i l :
+  (forall x, g (f x) = g x) -> map g (upd i f l) = map g l.
+Proof.
+  intros H. revert i. induction l as [|x l IH]; intros [|i]; simpl; auto.
+  - rewrite H. reflexivity.
+  - rewrite IH. reflexivity.
+Qed.
+
+Lemma QFS_upd s h f : (forall x, qf (f x) = qf x) -> QFS s (upd_h s h f).
+Proof. intros H. unfold QFS, upd_h, set_hs. cbn [hs]. apply map_upd_inert. exact H. Qed.
+
+Lemma QFS_hs s s' : hs s' = hs s -> QFS s s'.
+Proof. unfold QFS. intros ->. reflexivity. Qed.
+
+Lemma fp_stop_QFS s h : QFS s (fp_stop s h).
+Proof.
+  unfold fp_stop. destruct (h_active (hget s h)); [|apply QFS_refl].
+  destruct (h_ctxs (hget s h)) as [|c rest]; [apply QFS_upd; reflexivity|].
+  destruct (Nat.eqb (c_timer c) 1); [|apply QFS_upd; reflexivity].
+  eapply QFS_trans; [|apply QFS_upd; reflexivity].
+  eapply QFS_trans; [apply QFS_upd with (f := w_ctxs (mkC (c_id c) (c_stat c) 2 :: rest)); reflexivity|].
+  apply QFS_hs. reflexivity.
+Qed.
+
+Lemma c_close_QFS s h : QFS s (c_close s h).
+Proof.
+  unfold c_close.
+  assert (A : QFS s (upd_h s h (fun x => w_ledger [] (w_closing true x)))) by (apply QFS_upd; reflexivity).
+  destruct (h_ty (hget s h)); try (eapply QFS_trans; [exact A|apply QFS_hs; reflexivity]).
+  match goal with |- QFS s (match ?m with [] => _ | _ => _ end) => destruct m end.
+  - eapply QFS_trans; [exact A|]. eapply QFS_trans; [apply fp_stop_QFS|apply QFS_hs; reflexivity].
+  - eapply QFS_trans; [exact A|]. apply fp_stop_QFS.
+Qed.
+
+Lemma capi_hist s o : hist (capi s o) = hist s \/ hist (capi s o) = EIn o :: hist s.
+Proof.
+  destruct o; cbn [capi]; auto;
+    repeat match goal with
+    | |- context [if ?c then _ else _] => destruct c
+    | |- context [match ?c with _ => _ end] => destruct c
+    end; auto;
+    right; cbn [hist emit]; rewrite ?c_close_hist, ?fp_stop_hist; reflexivity.
+Qed.
+
+Definition queue_op (o : cop) : bool :=
+  match o with OInit _ | OSubmit _ _ _ | ODone _ _ => true | _ => false end.
+
+Lemma QFS_upd_hs s s' h f : hs s' = upd h f (hs s) -> (forall x, qf (f x) = qf x) -> QFS s s'.
+Proof. intros E H. unfold QFS. rewrite E. apply map_upd_inert. exact H. Qed.
+
+Lemma capi_QFS s o : queue_op o = false -> QFS s (capi s o).
+Proof.
+  destruct o; cbn [queue_op capi]; intros Q; try discriminate; try apply QFS_refl;
+    repeat match goal with
+    | |- QFS _ (if ?c then _ else _) => destruct c
+    end; try apply QFS_refl;
+    try (eapply QFS_upd_hs; [reflexivity|reflexivity]).
+  - apply QFS_hs. reflexivity.
+  - apply QFS_trans with (b := fp_stop s h); [apply fp_stop_QFS|apply QFS_hs; reflexivity].
+  - apply QFS_trans with (b := emit s (EIn (OClose h))); [apply QFS_hs; reflexivity|apply c_close_QFS].
+Qed.
+
+(* a step that leaves all request queues alone and appends plain events *)
+Lemma RInv_plain dw s s' l :
+  RInv dw s -> hist s' = l ++ hist s -> Forall plain l -> owner s' = owner s -> QFS s s' ->
+  (forall h, hvalid s h = true -> h_closed (hget s' h) = true -> h_closed (hget s h) = true) ->
+  RInv dw s'.
+Proof.
+  intros [Q R] A P B F C. pose proof (QFS_get _ _ F) as G.
+  split.
+  - apply QOK_same with (s := s); auto. intros h Hv. left. destruct (G h) as (G1 & G2).
+    rewrite G1 in Hv. splits; auto.
+  - apply HR_keep with (dw := dw) (s := s) (l := l); auto.
+    intros r. unfold pending. split; intros [H|(h & Hv & Hr)]; auto; right; exists h; destruct (G h) as (G1 & G2);
+      apply qf_eq in G2; destruct G2 as (_ & _ & _ & _ & _ & G2).
+    + rewrite <- G1, <- G2. auto.
+    + rewrite G1, G2. auto.
+Qed.
+
+(* ------------------------------------------------------------------ *)
+(* API operations keep the request invariant                          *)
+(* ------------------------------------------------------------------ *)
+Lemma fp_stop_owner s h : owner (fp_stop s h) = owner s.
+Proof.
+  unfold fp_stop. destruct (h_active (hget s h)); [|reflexivity].
+  destruct (h_ctxs (hget s h)) as [|c rest]; [reflexivity|]. destruct (Nat.eqb (c_timer c) 1); reflexivity.
+Qed.
+
+Lemma c_close_owner s h : owner (c_close s h) = owner s.
+Proof.
+  unfold c_close. destruct (h_ty (hget s h)); try reflexivity.
+  match goal with |- owner (match ?m with [] => _ | _ => _ end) = _ => destruct m end;
+    cbn [owner push_clq set_clq]; rewrite fp_stop_owner; reflexivity.
+Qed.
+
+Lemma capi_owner s o : queue_op o = false -> owner (capi s o) = owner s.
+Proof.
+  destruct o; cbn [queue_op capi]; intros Q; try discriminate; try reflexivity;
+    repeat match goal with
+    | |- owner (if ?c then _ else _) = _ => destruct c
+    end; try reflexivity;
+    cbn [owner emit]; rewrite ?c_close_owner, ?fp_stop_owner; reflexivity.
+Qed.
+
+Lemma plain_op o : (forall h r k, o <> OSubmit h r k) -> plain (EIn o).
+Proof. intros H. unfold plain. splits; try discriminate; auto. intros h r k E. inversion E. eapply H; eauto. Qed.
+
+Lemma cnt_zero r l : (forall e, In e l -> ev_req e <> Some r) -> cnt r l = O.
+Proof.
+  induction l as [|e l IH]; intros H; [reflexivity|]. rewrite cnt_cons.
+  destruct (is_reqcb r e) eqn:E.
+  - exfalso. destruct e; simpl in E; try discriminate. apply Nat.eqb_eq in E. subst.
+    apply (H (EReqCb r st cl)); [left; reflexivity|reflexivity].
+  - apply IH. intros e' He'. apply H. right. exact He'.
+Qed.
+
+Lemma QOK_owner dw s r h : QOK dw s -> QOK dw (set_owner s ((r, h) :: owner s)).
+Proof.
+  intros [A B C D E]. constructor; auto.
+  intros r' Hr. destruct (C r' Hr) as (C1 & C2). split; [|exact C2].
+  cbn [owner set_owner]. simpl. destruct (Nat.eqb r r'); [discriminate|exact C1].
+Qed.
+
+(* OSubmit: r joins the queues of h *)
+Lemma submit_R dl dw s h r k f :
+  Inv dl s -> RInv dw s -> hvalid s h = true -> h_closing (hget s h) = false ->
+  lookup r (owner s) = None ->
+  Permutation (qreqs (f (hget s h))) (r :: qreqs (hget s h)) ->
+  h_closed (f (hget s h)) = h_closed (hget s h) ->
+  ((h_ty (f (hget s h)) <> TStream -> h_conn (f (hget s h)) = None /\ h_shut (f (hget s h)) = None) /\
+   (h_ty (f (hget s h)) <> TStream -> h_ty (f (hget s h)) <> TUdp ->
+    h_wq (f (hget s h)) = [] /\ h_cq (f (hget s h)) = [])) ->
+  RInv dw (emit (upd_h (set_owner s ((r, h) :: owner s)) h f) (EIn (OSubmit h r k))).
+Proof.
+  intros I [Q R] Hv Hc Fr P C T.
+  pose proof (j_h _ _ I h Hv) as K.
+  assert (Hd : h_closed (hget s h) = false) by (eapply HOK_not_closing; eauto).
+  assert (NI : ~ In r (qreqs (hget s h))).
+  { intros H. rewrite (k_own _ _ _ _ K r H) in Fr. discriminate. }
+  set (s0 := set_owner s ((r, h) :: owner s)).
+  set (s1 := upd_h s0 h f).
+  assert (MEM : forall y, In y (qreqs (f (hget s h))) <-> (y = r \/ In y (qreqs (hget s h)))).
+  { intros y. split; intros H.
+    - apply (Permutation_in _ P) in H. destruct H; auto.
+    - apply (Permutation_in _ (Permutation_sym P)). destruct H; [left; auto|right; auto]. }
+  assert (PE : forall r', pending dw s1 r' <-> (pending dw s r' \/ r' = r)).
+  { intros r'. unfold pending. split.
+    - intros [H|(h' & Hv' & Hr)]; auto. unfold s1 in Hv', Hr. rewrite hvalid_upd in Hv'.
+      destruct (Nat.eq_dec h h') as [<-|Hne].
+      + rewrite hget_upd_same in Hr by exact Hv. apply MEM in Hr. destruct Hr as [->|Hr]; auto.
+        left. right. exists h. auto.
+      + rewrite hget_upd_other in Hr by exact Hne. left. right. exists h'. auto.
+    - intros [[H|(h' & Hv' & Hr)] | ->]; auto; right.
+      + exists h'. unfold s1. rewrite hvalid_upd. split; [exact Hv'|].
+        destruct (Nat.eq_dec h h') as [<-|Hne].
+        * rewrite hget_upd_same by exact Hv. apply MEM. auto.
+        * rewrite hget_upd_other by exact Hne. exact Hr.
+      + exists h. unfold s1. rewrite hvalid_upd. split; [exact Hv|].
+        rewrite hget_upd_same by exact Hv. apply MEM. auto. }
+  split.
+  - apply QOK_same with (s := s1); [|reflexivity|intros h' Hv'; left; splits; auto].
+    unfold s1. apply QOK_upd with (dw := dw); auto.
+    + apply QOK_owner. exact Q.
+    + change (hget s0 h) with (hget s h). apply (Permutation_NoDup (Permutation_sym P)).
+      constructor; [exact NI|apply (q_nd _ _ Q h Hv)].
+    + apply (q_dwnd _ _ Q).
+    + intros r' Hr. destruct (q_dw _ _ Q r' Hr) as (D1 & D2).
+      assert (Hne : r' <> r) by (intros ->; contradiction).
+      splits.
+      * cbn [owner set_owner s0]. rewrite lookup_cons_other by congruence. exact D1.
+      * change (hget s0 h) with (hget s h). intros H. apply MEM in H. destruct H as [H|H]; [contradiction|].
+        apply (D2 h Hv H).
+      * intros h' _ Hv'. apply D2. exact Hv'.
+    + change (hget s0 h) with (hget s h). intros H. congruence.
+  - apply HR_submit with (s := s); auto.
+    apply cnt_zero. intros e He Hr. apply (j_ro _ _ I e r He Hr). exact Fr.
+Qed.
+
+Lemma perm_mid {A} (r : A) l1 l2 : Permutation (l1 ++ r :: l2) (r :: l1 ++ l2).
+Proof. apply Permutation_sym. apply Permutation_middle. Qed.
+
+Lemma perm_wq (r : nat) a w m : Permutation (a ++ (w ++ [r]) ++ m) (r :: a ++ w ++ m).
+Proof.
+  replace (a ++ (w ++ [r]) ++ m) with ((a ++ w) ++ r :: m) by (rewrite <- !app_assoc; reflexivity).
+  replace (a ++ w ++ m) with ((a ++ w) ++ m) by (rewrite <- app_assoc; reflexivity).
+  apply perm_mid.
+Qed.
+
+Lemma perm_done (r : nat) a rest m o :
+  Permutation (a ++ rest ++ (m ++ [r]) ++ o) (a ++ (r :: rest) ++ m ++ o).
+Proof.
+  apply Permutation_trans with (l' := r :: a ++ rest ++ m ++ o).
+  - replace (a ++ rest ++ (m ++ [r]) ++ o) with ((a ++ rest ++ m) ++ r :: o) by (rewrite <- !app_assoc; reflexivity).
+    replace (a ++ rest ++ m ++ o) with ((a ++ rest ++ m) ++ o) by (rewrite <- !app_assoc; reflexivity).
+    apply perm_mid.
+  - apply Permutation_sym. simpl. apply perm_mid.
+Qed.
+
+Lemma capi_R dl dw s o : Inv dl s -> RInv dw s -> RInv dw (capi s o).
+Proof.
+  intros I R. destruct (queue_op o) eqn:QO.
+  2:{ (* nothing happens to the queues *)
+      pose proof (capi_step dl s o I) as [_ [F _]].
+      assert (NS : forall h r k, o <> OSubmit h r k) by (intros h r k ->; discriminate).
+      destruct (capi_hist s o) as [H|H].
+      - apply RInv_plain with (s := s) (l := []); auto. + apply capi_owner; exact QO. + apply capi_QFS; exact QO.
+        + intros h Hv. destruct (F h Hv) as (_ & C & _). congruence.
+      - apply RInv_plain with (s := s) (l := [EIn o]); auto.
+        + constructor; [apply plain_op; exact NS|constructor].
+        + apply capi_owner; exact QO. + apply capi_QFS; exact QO.
+        + intros h Hv. destruct (F h Hv) as (_ & C & _). congruence. }
+  destruct o; try discriminate; cbn [capi].
+  - (* OInit *)
+    destruct R as [Q R].
+    set (x := mkHS t false false None [] [] None [] 0 false []).
+    set (s1 := set_hs s (hs s ++ [x])).
+    assert (G : forall h, hvalid s1 h = true ->
+                  (hvalid s h = true /\ hget s1 h = hget s h) \/ (hvalid s h = false /\ hget s1 h = x)).
+    { intros h Hv. destruct (hvalid s h) eqn:E.
+      - left. split; [reflexivity|apply hget_app_old; exact E].
+      - right. split; [reflexivity|]. apply hvalid_lt in Hv. unfold s1 in Hv. cbn [hs set_hs] in Hv.
+        rewrite app_length in Hv. simpl in Hv. unfold hvalid in E. apply Nat.ltb_ge in E.
+        assert (h = length (hs s)) by lia. subst h. apply hget_app_new. }
+    split.
+    + apply QOK_same with (s := s); auto. intros h Hv. change (hvalid s1 h = true) in Hv.
+      change (hget (emit s1 (EIn (OInit t))) h) with (hget s1 h).
+      destruct (G h Hv) as [(V & E)|(V & E)].
+      * left. rewrite E. auto.
+      * right. rewrite E. unfold x. cbn. auto.
+    + apply HR_keep with (dw := dw) (s := s) (l := [EIn (OInit t)]); auto.
+      * constructor; [apply plain_op; intros; discriminate|constructor].
+      * intros r. unfold pending. split; intros [H|(h & Hv & Hr)]; auto; right.
+        -- change (hvalid (emit s1 (EIn (OInit t))) h) with (hvalid s1 h) in Hv.
+           change (hget (emit s1 (EIn (OInit t))) h) with (hget s1 h) in Hr.
+           destruct (G h Hv) as [(V & E)|(V & E)]; rewrite E in Hr; [exists h; auto|destruct Hr].
+        -- exists h. change (hvalid (emit s1 (EIn (OInit t))) h) with (hvalid s1 h).
+           change (hget (emit s1 (EIn (OInit t))) h) with (hget s1 h).
+           unfold s1. rewrite hget_app_old by exact Hv. split; [|exact Hr].
+           apply hvalid_lt in Hv. apply hvalid_lt. cbn [hs set_hs]. rewrite app_length. simpl. lia.
+  - (* OSubmit *)
+    destruct (usable s h && match lookup r (owner s) with None => true | Some _ => false end) eqn:U; [|exact R].
+    apply andb_prop in U. destruct U as [U Fr]. apply usable_valid in U. destruct U as [Hv Hc].
+    destruct (lookup r (owner s)) eqn:Lr; [discriminate|].
+    pose proof (q_ty _ _ (proj1 R) h Hv) as TY.
+    destruct kind as [|[|[|[|kind]]]]; destruct (h_ty (hget s h)) eqn:Ty; try exact R.
+    + destruct (h_conn (hget s h)) eqn:Ec; [exact R|].
+      apply submit_R with (dl := dl); auto.
+      * unfold qreqs. cbn. rewrite Ec. apply Permutation_refl.
+      * cbn. rewrite Ty. split; intros H; congruence.
+    + apply submit_R with (dl := dl); auto.
+      * unfold qreqs. cbn. apply perm_wq.
+      * cbn. rewrite Ty. split; intros H; congruence.
+    + destruct (h_shut (hget s h)) eqn:Ec; [exact R|].
+      apply submit_R with (dl := dl); auto.
+      * unfold qreqs. cbn. rewrite Ec. simpl. rewrite app_nil_r.
+        rewrite !app_assoc. apply Permutation_sym. apply Permutation_cons_append.
+      * cbn. rewrite Ty. split; intros H; congruence.
+    + apply submit_R with (dl := dl); auto.
+      * unfold qreqs. cbn. apply perm_wq.
+      * cbn. rewrite Ty. destruct TY as (T1 & T2). split; [intros _; apply T1; congruence|intros _ H; congruence].
+  - (* ODone *)
+    destruct (lookup r (owner s)) as [h|] eqn:Lr; [|exact R].
+    destruct (h_wq (hget s h)) as [|r' rest] eqn:Ew; [exact R|].
+    destruct (Nat.eqb r r' && usable s h) eqn:U; [|exact R].
+    apply andb_prop in U. destruct U as [Er U]. apply Nat.eqb_eq in Er. subst r'.
+    apply usable_valid in U. destruct U as [Hv Hc].
+    pose proof (j_h _ _ I h Hv) as K.
+    assert (Hd : h_closed (hget s h) = false) by (eapply HOK_not_closing; eauto).
+    destruct R as [Q R].
+    set (f := fun x => w_cq (h_cq x ++ [(r, st)]) (w_wq rest x)).
+    assert (P : Permutation (qreqs (f (hget s h))) (qreqs (hget s h))).
+    { unfold qreqs, f. cbn. rewrite Ew, map_app. simpl. apply perm_done. }
+    assert (MEM : forall y, In y (qreqs (f (hget s h))) <-> In y (qreqs (hget s h))).
+    { intros y. split; apply Permutation_in; [exact P|apply Permutation_sym; exact P]. }
+    split.
+    + apply QOK_same with (s := upd_h s h f); [|reflexivity|intros h' Hv'; left; splits; auto].
+      apply QOK_upd with (dw := dw); auto.
+      * apply (Permutation_NoDup (Permutation_sym P)). apply (q_nd _ _ Q h Hv).
+      * apply (q_dwnd _ _ Q).
+      * intros r' Hr. destruct (q_dw _ _ Q r' Hr) as (D1 & D2). splits; auto.
+        intros H. apply MEM in H. apply (D2 h Hv H).
+      * destruct (q_ty _ _ Q h Hv) as (T1 & T2). unfold f. cbn. split; [exact T1|].
+        intros A B. destruct (T2 A B) as (W & _). congruence.
+      * unfold f. cbn. congruence.
+    + apply HR_keep with (dw := dw) (s := s) (l := [EIn (ODone r st)]); auto.
+      * constructor; [apply plain_op; intros; discriminate|constructor].
+      * intros r'. unfold pending. split; intros [H|(h' & Hv' & Hr)]; auto; right; exists h'.
+        -- change (hvalid (emit (upd_h s h f) (EIn (ODone r st))) h') with (hvalid (upd_h s h f) h') in Hv'.
+           change (hget (emit (upd_h s h f) (EIn (ODone r st))) h') with (hget (upd_h s h f) h') in Hr.
+           rewrite hvalid_upd in Hv'. split; [exact Hv'|]. destruct (Nat.eq_dec h h') as [<-|Hne].
+           ++ rewrite hget_upd_same in Hr by exact Hv. apply MEM. exact Hr.
+           ++ rewrite hget_upd_other in Hr by exact Hne. exact Hr.
+        -- change (hvalid (emit (upd_h s h f) (EIn (ODone r st))) h') with (hvalid (upd_h s h f) h').
+           change (hget (emit (upd_h s h f) (EIn (ODone r st))) h') with (hget (upd_h s h f) h').
+           rewrite hvalid_upd. split; [exact Hv'|]. destruct (Nat.eq_dec h h') as [<-|Hne].
+           ++ rewrite hget_upd_same by exact Hv. apply MEM. exact Hr.
+           ++ rewrite hget_upd_other by exact Hne. exact Hr.
+Qed.
+
+Lemma capis_R dl dw os : forall s, Inv dl s -> RInv dw s -> RInv dw (capis s os).
+Proof.
+  induction os as [|o os IH]; intros s I R; cbn [capis]; [exact R|].
+  apply IH; [apply (capi_step dl s o I)|apply capi_R with (dl := dl); auto].
+Qed.
+
+(* a closing handle's request queues are frozen during API calls *)
+Lemma capi_frozen dl s o h :
+  Inv dl s -> hvalid s h = true -> h_closing (hget s h) = true ->
+  qf (hget (capi s o) h) = qf (hget s h).
+Proof.
+  intros I Hv Hc. destruct (queue_op o) eqn:QO.
+  2:{ apply (QFS_get _ _ (capi_QFS s o QO) h). }
+  destruct o; try discriminate; cbn [capi].
+  - change (hget (emit ?x ?e) h) with (hget x h). rewrite hget_app_old by exact Hv. reflexivity.
+  - destruct (usable s h0 && match lookup r (owner s) with None => true | Some _ => false end) eqn:U; [|reflexivity].
+    apply andb_prop in U. destruct U as [U _]. apply usable_valid in U. destruct U as [Hv0 Hc0].
+    assert (Hne : h0 <> h) by (intros ->; congruence).
+    destruct kind as [|[|[|[|kind]]]]; destruct (h_ty (hget s h0)); try reflexivity;
+      repeat match goal with |- context [match ?c with None => _ | Some _ => _ end] => destruct c end;
+      try reflexivity;
+      change (hget (emit ?x ?e) h) with (hget x h); rewrite hget_upd_other by exact Hne; reflexivity.
+  - destruct (lookup r (owner s)) as [h0|]; [|reflexivity].
+    destruct (h_wq (hget s h0)) as [|r' rest]; [reflexivity|].
+    destruct (Nat.eqb r r' && usable s h0) eqn:U; [|reflexivity].
+    apply andb_prop in U. destruct U as [_ U]. apply usable_valid in U. destruct U as [Hv0 Hc0].
+    assert (Hne : h0 <> h) by (intros ->; congruence).
+    change (hget (emit ?x ?e) h) with (hget x h). rewrite hget_upd_other by exact Hne. reflexivity.
+Qed.
+
+Lemma capis_frozen dl os h : forall s,
+  Inv dl s -> hvalid s h = true -> h_closing (hget s h) = true ->
+  qf (hget (capis s os) h) = qf (hget s h).
+Proof.
+  induction os as [|o os IH]; intros s I Hv Hc; cbn [capis]; [reflexivity|].
+  pose proof (capi_step dl s o I) as [I1 [F1 _]]. destruct (F1 h Hv) as (V1 & _ & _ & C1).
+  rewrite IH; auto. apply capi_frozen with (dl := dl); auto.
+Qed.
+
+Lemma ccallback_frozen dl s beh e h :
+  Inv dl (set_ncb (emit s e) (S (ncb s))) -> hvalid s h = true -> h_closing (hget s h) = true ->
+  qf (hget (ccallback s beh e) h) = qf (hget s h).
+Proof.
+  intros I Hv Hc. unfold ccallback. rewrite (capis_frozen dl (beh (ncb s)) h _ I); auto.
+Qed.
+
+Lemma RInv_ext dw s s' :
+  RInv dw s -> hs s' = hs s -> owner s' = owner s -> hist s' = hist s -> RInv dw s'.
+Proof.
+  intros [Q R] A B C. destruct s, s'; simpl in *; subst.
+  split; [destruct Q; constructor; assumption|destruct R; constructor; assumption].
+Qed.
+
+Lemma Inv_reqcb_pre dl s r st cl h :
+  Inv dl s -> lookup r (owner s) = Some h -> h_closed (hget s h) = false ->
+  Inv dl (set_ncb (emit s (EReqCb r st cl)) (S (ncb s))).
+Proof.
+  intros I L Hc. apply Inv_ext with (s := emit s (EReqCb r st cl)); auto.
+  apply Inv_emit; auto; try discriminate.
+  - intros h' [Ha|(r' & Hr & Hl)] _; [discriminate|].
+    simpl in Hr. inversion Hr; subst. assert (h' = h) by congruence. subst. exact Hc.
+  - simpl. intros r' Hr. inversion Hr; subst. congruence.
+Qed.
+
+(* a pending request r (on the detached list, or in a queue of h from which f
+   removes it) gets its callback; then the callback body runs *)
+Lemma deliver_R dl dw dw' s s1 beh r st cl h :
+  Inv dl s1 -> RInv dw s -> hist s1 = hist s -> owner s1 = owner s ->
+  lookup r (owner s) = Some h -> h_closed (hget s1 h) = false ->
+  pending dw s r ->
+  (forall r', pending dw' s1 r' <-> (pending dw s r' /\ r' <> r)) ->
+  QOK dw' s1 ->
+  RInv dw' (ccallback s1 beh (EReqCb r st cl)).
+Proof.
+  intros I1 [Q R] A B L Hc Hp PE Q1. unfold ccallback.
+  apply capis_R with (dl := dl).
+  - apply Inv_reqcb_pre with (h := h); auto. congruence.
+  - apply RInv_ext with (s := emit s1 (EReqCb r st cl)); auto. split.
+    + apply QOK_same with (s := s1); auto; intros h' Hv'; left; splits; auto.
+    + apply HR_deliver with (dw := dw) (s := s); auto; congruence.
+Qed.
+
+(* the head of the detached list is delivered *)
+Lemma dw_deliver_R dl dw s beh r st cl h :
+  Inv dl s -> RInv (r :: dw) s -> lookup r (owner s) = Some h -> h_closed (hget s h) = false ->
+  RInv dw (ccallback s beh (EReqCb r st cl)).
+Proof.
+  intros I R L Hc. pose proof R as [Q _].
+  pose proof (q_dwnd _ _ Q) as N. inversion N; subst.
+  destruct (q_dw _ _ Q r ltac:(left; reflexivity)) as (_ & NQ).
+  apply deliver_R with (dl := dl) (dw := r :: dw) (s := s) (h := h); auto.
+  - left. left. reflexivity.
+  - intros r'. unfold pending. split.
+    + intros [H|(h' & Hv' & Hr)].
+      * split; [left; right; exact H|]. intros ->. contradiction.
+      * split; [right; exists h'; auto|]. intros ->. apply (NQ h' Hv' Hr).
+    + intros ([[->|H]|H] & Hne); [contradiction|left; exact H|right; exact H].
+  - destruct Q. constructor; auto. intros r' Hr. apply q_dw0. right. exact Hr.
+Qed.
+
+Lemma run_cq_R dl beh h l : forall dw s,
+  Inv dl s -> RInv (map fst l ++ dw) s -> hvalid s h = true -> h_closed (hget s h) = false ->
+  (forall r st, In (r, st) l -> lookup r (owner s) = Some h) ->
+  RInv dw (run_cq l h s beh).
+Proof.
+  induction l as [|[r st] l IH]; intros dw s I R Hv Hc Ho; cbn [run_cq]; [exact R|].
+  set (s1 := ccallback s beh (EReqCb r (cbstatus (h_ty (hget s h)) st) (h_closing (hget s h)))).
+  assert (S1 : Step dl s s1).
+  { apply reqcb_step with (h := h); auto. apply (Ho r st). left. reflexivity. }
+  destruct S1 as [I1 [F1 F2]]. destruct (F1 h Hv) as (V1 & C1 & _).
+  apply IH; auto.
+  - simpl in R. apply dw_deliver_R with (dl := dl) (h := h); auto. apply (Ho r st). left. reflexivity.
+  - congruence.
+  - intros r' st' H. apply F2. apply (Ho r' st'). right. exact H.
+Qed.
+
+Lemma NoDup_app_intro {A} (a b : list A) :
+  NoDup a -> NoDup b -> (forall x, In x a -> ~ In x b) -> NoDup (a ++ b).
+Proof.
+  induction a as [|x a IH]; intros Na Nb D; simpl; [exact Nb|].
+  inversion Na; subst. constructor.
+  - intros H. apply in_app_or in H. destruct H as [H|H]; [contradiction|]. apply (D x); [left; reflexivity|exact H].
+  - apply IH; auto. intros y Hy. apply D. right. exact Hy.
+Qed.
+
+Lemma NoDup_app_l {A} (a b : list A) : NoDup (a ++ b) -> NoDup a /\ NoDup b /\ forall x, In x a -> ~ In x b.
+Proof.
+  induction a as [|x a IH]; simpl; intros N.
+  - splits; [constructor|exact N|intros x []].
+  - inversion N; subst. destruct (IH H2) as (A1 & A2 & A3). splits; auto.
+    + constructor; auto. intros H. apply H1. apply in_or_app. auto.
+    + intros y [->|Hy]; [intros H; apply H1; apply in_or_app; auto|auto].
+Qed.
+
+Lemma same_owner_same_handle dl s h h' r :
+  Inv dl s -> hvalid s h = true -> hvalid s h' = true ->
+  In r (qreqs (hget s h)) -> In r (qreqs (hget s h')) -> h = h'.
+Proof.
+  intros I V V' A B. pose proof (k_own _ _ _ _ (j_h _ _ I h V) r A).
+  pose proof (k_own _ _ _ _ (j_h _ _ I h' V') r B). congruence.
+Qed.
+
+(* requests of h move from its queues onto the detached list *)
+Lemma detach_R dl dw s h f moved :
+  Inv dl s -> RInv dw s -> hvalid s h = true ->
+  Permutation (moved ++ qreqs (f (hget s h))) (qreqs (hget s h)) ->
+  h_closed (f (hget s h)) = h_closed (hget s h) ->
+  ((h_ty (f (hget s h)) <> TStream -> h_conn (f (hget s h)) = None /\ h_shut (f (hget s h)) = None) /\
+   (h_ty (f (hget s h)) <> TStream -> h_ty (f (hget s h)) <> TUdp ->
+    h_wq (f (hget s h)) = [] /\ h_cq (f (hget s h)) = [])) ->
+  RInv (moved ++ dw) (upd_h s h f).
+Proof.
+  intros I [Q R] Hv P C T. pose proof (j_h _ _ I h Hv) as K.
+  assert (N0 : NoDup (moved ++ qreqs (f (hget s h)))).
+  { apply (Permutation_NoDup (Permutation_sym P)). apply (q_nd _ _ Q h Hv). }
+  destruct (NoDup_app_l _ _ N0) as (Nm & Nf & Dmf).
+  assert (MEM : forall y, In y (qreqs (hget s h)) <-> (In y moved \/ In y (qreqs (f (hget s h))))).
+  { intros y. rewrite <- in_app_iff. split; apply Permutation_in; [apply Permutation_sym; exact P|exact P]. }
+  split.
+  - apply QOK_upd with (dw := dw); auto.
+    + apply NoDup_app_intro; auto; [apply (q_dwnd _ _ Q)|].
+      intros y Hy Hd. destruct (q_dw _ _ Q y Hd) as (_ & D2). apply (D2 h Hv). apply MEM. auto.
+    + intros r Hr. apply in_app_or in Hr. destruct Hr as [Hr|Hr].
+      * assert (Hq : In r (qreqs (hget s h))) by (apply MEM; auto).
+        splits.
+        -- rewrite (k_own _ _ _ _ K r Hq). discriminate.
+        -- apply Dmf. exact Hr.
+        -- intros h' Hne Hv' H'. apply Hne. symmetry. eapply same_owner_same_handle; eauto.
+      * destruct (q_dw _ _ Q r Hr) as (D1 & D2). splits; auto.
+        intros H. apply (D2 h Hv). apply MEM. auto.
+    + intros Hc. rewrite C in Hc. pose proof (q_closed _ _ Q h Hv Hc) as E.
+      destruct (qreqs (f (hget s h))) as [|y l]; [reflexivity|].
+      exfalso. assert (In y (qreqs (hget s h))) by (apply MEM; right; left; reflexivity).
+      rewrite E in H. exact H.
+  - apply HR_keep with (dw := dw) (s := s) (l := []); auto.
+    intros r. unfold pending. split.
+    + intros [H|(h' & Hv' & Hr)].
+      * apply in_app_or in H. destruct H as [H|H]; [|left; exact H].
+        right. exists h. split; [exact Hv|]. apply MEM. auto.
+      * rewrite hvalid_upd in Hv'. right. exists h'. split; [exact Hv'|].
+        destruct (Nat.eq_dec h h') as [<-|Hne].
+        -- rewrite hget_upd_same in Hr by exact Hv. apply MEM. auto.
+        -- rewrite hget_upd_other in Hr by exact Hne. exact Hr.
+    + intros [H|(h' & Hv' & Hr)]; [left; apply in_or_app; auto|].
+      destruct (Nat.eq_dec h h') as [<-|Hne].
+      * apply MEM in Hr. destruct Hr as [Hr|Hr]; [left; apply in_or_app; auto|].
+        right. exists h. rewrite hvalid_upd, hget_upd_same by exact Hv. auto.
+      * right. exists h'. rewrite hvalid_upd, hget_upd_other by exact Hne. auto.
+Qed.
+
+(* the connect / shutdown request r of h is taken out and gets its callback *)
+Lemma drop_req_R dl dw s beh h f r st cl :
+  Inv dl s -> RInv dw s -> hvalid s h = true -> h_closed (hget s h) = false ->
+  Permutation (r :: qreqs (f (hget s h))) (qreqs (hget s h)) ->
+  h_closing (f (hget s h)) = h_closing (hget s h) -> h_closed (f (hget s h)) = h_closed (hget s h) ->
+  h_ctxs (f (hget s h)) = h_ctxs (hget s h) -> h_ty (f (hget s h)) = h_ty (hget s h) ->
+  h_ledger (f (hget s h)) = h_ledger (hget s h) ->
+  ((h_ty (f (hget s h)) <> TStream -> h_conn (f (hget s h)) = None /\ h_shut (f (hget s h)) = None) /\
+   (h_ty (f (hget s h)) <> TStream -> h_ty (f (hget s h)) <> TUdp ->
+    h_wq (f (hget s h)) = [] /\ h_cq (f (hget s h)) = [])) ->
+  RInv dw (ccallback (upd_h s h f) beh (EReqCb r st cl)).
+Proof.
+  intros I R Hv Hd P A B C T L TY. pose proof (j_h _ _ I h Hv) as K.
+  assert (Hq : In r (qreqs (hget s h))) by (apply (Permutation_in _ P); left; reflexivity).
+  assert (SUB : forall y, In y (qreqs (f (hget s h))) -> In y (qreqs (hget s h)))
+    by (intros y Hy; apply (Permutation_in _ P); right; exact Hy).
+  assert (I1 : Inv dl (upd_h s h f)).
+  { apply Inv_upd; auto. eapply HOK_frame; eauto. rewrite A, L. apply (k_led _ _ _ _ K). }
+  pose proof (detach_R dl dw s h f [r] I R Hv P B TY) as [Q1 R1].
+  destruct (NoDup_app_l [r] dw (q_dwnd _ _ Q1)) as (_ & Ndw & Dr).
+  apply deliver_R with (dl := dl) (dw := dw) (s := s) (h := h); auto.
+  - apply (k_own _ _ _ _ K r Hq).
+  - rewrite hget_upd_same by exact Hv. congruence.
+  - right. exists h. auto.
+  - intros r'. split.
+    + intros Hp. assert (Hp' : pending ([r] ++ dw) (upd_h s h f) r').
+      { destruct Hp as [H|H]; [left; right; exact H|right; exact H]. }
+      split.
+      * destruct R as [_ R]. destruct R1. (* pending sets agree up to the moved request *)
+        unfold pending in *. destruct Hp as [H|(h' & Hv' & Hr)]; [left; exact H|right].
+        rewrite hvalid_upd in Hv'. exists h'. split; [exact Hv'|].
+        destruct (Nat.eq_dec h h') as [<-|Hne].
+        -- rewrite hget_upd_same in Hr by exact Hv. auto.
+        -- rewrite hget_upd_other in Hr by exact Hne. exact Hr.
+      * intros ->. destruct Hp as [H|(h' & Hv' & Hr)].
+        -- apply (Dr r); [left; reflexivity|exact H].
+        -- destruct (q_dw _ _ Q1 r ltac:(left; reflexivity)) as (_ & D2). apply (D2 h' Hv' Hr).
+    + intros ([H|(h' & Hv' & Hr)] & Hne); [left; exact H|right].
+      exists h'. rewrite hvalid_upd. split; [exact Hv'|].
+      destruct (Nat.eq_dec h h') as [<-|Hne'].
+      * rewrite hget_upd_same by exact Hv. apply (Permutation_in _ (Permutation_sym P)) in Hr.
+        destruct Hr as [E|Hr]; [congruence|exact Hr].
+      * rewrite hget_upd_other by exact Hne'. exact Hr.
+  - destruct Q1. constructor; auto. intros r' Hr. apply q_dw0. right. exact Hr.
+Qed.
+
+Lemma map_fst_cancelled l : map fst (cancelled l) = l.
+Proof. unfold cancelled. rewrite map_map. simpl. apply map_id. Qed.
+
+Lemma perm_flush (c : option nat) w (m : list nat) o :
+  Permutation ((m ++ w) ++ oreq c ++ [] ++ [] ++ o) (oreq c ++ w ++ m ++ o).
+Proof.
+  simpl. apply Permutation_trans with (l' := oreq c ++ (m ++ w) ++ o).
+  - rewrite app_assoc. rewrite (app_assoc (oreq c)). apply Permutation_app_tail. apply Permutation_app_comm.
+  - apply Permutation_app_head. rewrite <- app_assoc. rewrite app_assoc. rewrite (app_assoc w).
+    apply Permutation_app_tail. apply Permutation_app_comm.
+Qed.
+
+Lemma perm_batch (c : option nat) w (m : list nat) o :
+  Permutation (m ++ oreq c ++ w ++ [] ++ o) (oreq c ++ w ++ m ++ o).
+Proof.
+  simpl. rewrite !app_assoc. apply Permutation_app_tail. rewrite <- app_assoc.
+  apply Permutation_app_comm.
+Qed.
+
+(* run_cq leaves a closing handle's queues alone *)
+Lemma run_cq_frozen dl beh h0 l : forall s h,
+  Inv dl s -> hvalid s h0 = true -> h_closed (hget s h0) = false ->
+  (forall r st, In (r, st) l -> lookup r (owner s) = Some h0) ->
+  hvalid s h = true -> h_closing (hget s h) = true ->
+  qf (hget (run_cq l h0 s beh) h) = qf (hget s h).
+Proof.
+  induction l as [|[r st] l IH]; intros s h I Hv0 Hc0 Ho Hv Hc; cbn [run_cq]; [reflexivity|].
+  set (ev := EReqCb r (cbstatus (h_ty (hget s h0)) st) (h_closing (hget s h0))).
+  assert (L : lookup r (owner s) = Some h0) by (apply (Ho r st); left; reflexivity).
+  assert (S1 : Step dl s (ccallback s beh ev)) by (apply reqcb_step with (h := h0); auto).
+  destruct S1 as [I1 [F1 F2]].
+  destruct (F1 h0 Hv0) as (V1 & C1 & _). destruct (F1 h Hv) as (V2 & _ & _ & C2).
+  rewrite IH; auto.
+  - apply ccallback_frozen with (dl := dl); auto. apply Inv_reqcb_pre with (h := h0); auto.
+  - congruence.
+  - intros r' st' H. apply F2. apply (Ho r' st'). right. exact H.
+Qed.
+
+Lemma flush_and_run_R dl dw s beh h :
+  Inv dl s -> RInv dw s -> hvalid s h = true -> h_closed (hget s h) = false ->
+  RInv dw (flush_and_run s beh h).
+Proof.
+  intros I R Hv Hd. unfold flush_and_run. pose proof (j_h _ _ I h Hv) as K.
+  set (f := fun x => w_cq [] (w_wq [] x)).
+  set (pq := h_cq (hget s h) ++ cancelled (h_wq (hget s h))).
+  assert (I1 : Inv dl (upd_h s h f)).
+  { apply Inv_upd; auto. eapply HOK_frame; eauto.
+    - intros r. rewrite !in_qreqs. unfold f. cbn. tauto.
+    - apply (k_led _ _ _ _ K). }
+  apply run_cq_R with (dl := dl); auto.
+  - unfold pq. rewrite map_app, map_fst_cancelled.
+    apply detach_R with (dl := dl); auto.
+    + unfold qreqs, f. cbn. apply perm_flush.
+    + destruct (q_ty _ _ (proj1 R) h Hv) as (T1 & T2). unfold f. cbn. split; auto.
+  - rewrite hvalid_upd. exact Hv.
+  - rewrite hget_upd_same by exact Hv. exact Hd.
+  - intros r st H. change (owner (upd_h s h f)) with (owner s).
+    apply (k_own _ _ _ _ K). apply in_qreqs. unfold pq in H. apply in_app_or in H. destruct H as [H|H].
+    + right. right. left. apply in_map_iff. exists (r, st). auto.
+    + right. left. eapply in_cancelled; eauto.
+Qed.
+
+Lemma flush_and_run_empty dl s beh h :
+  Inv dl s -> hvalid s h = true -> h_closing (hget s h) = true -> h_closed (hget s h) = false ->
+  let s' := flush_and_run s beh h in
+  h_wq (hget s' h) = [] /\ h_cq (hget s' h) = [] /\ h_conn (hget s' h) = h_conn (hget s h) /\
+  h_shut (hget s' h) = h_shut (hget s h) /\ h_ty (hget s' h) = h_ty (hget s h).
+Proof.
+  intros I Hv Hc Hd s'. unfold s', flush_and_run. pose proof (j_h _ _ I h Hv) as K.
+  set (f := fun x => w_cq [] (w_wq [] x)).
+  assert (I1 : Inv dl (upd_h s h f)).
+  { apply Inv_upd; auto. eapply HOK_frame; eauto.
+    - intros r. rewrite !in_qreqs. unfold f. cbn. tauto.
+    - apply (k_led _ _ _ _ K). }
+  assert (G : hget (upd_h s h f) h = f (hget s h)) by (apply hget_upd_same; exact Hv).
+  pose proof (run_cq_frozen dl beh h (h_cq (hget s h) ++ cancelled (h_wq (hget s h))) (upd_h s h f) h I1) as F.
+  rewrite hvalid_upd, G in F. specialize (F Hv Hd).
+  assert (Ho : forall r st, In (r, st) (h_cq (hget s h) ++ cancelled (h_wq (hget s h))) ->
+               lookup r (owner (upd_h s h f)) = Some h).
+  { intros r st H. change (owner (upd_h s h f)) with (owner s).
+    apply (k_own _ _ _ _ K). apply in_qreqs. apply in_app_or in H. destruct H as [H|H].
+    - right. right. left. apply in_map_iff. exists (r, st). auto.
+    - right. left. eapply in_cancelled; eauto. }
+  specialize (F Ho Hv Hc). apply qf_eq in F. destruct F as (F1 & F2 & F3 & F4 & F5 & _).
+  rewrite F1, F2, F3, F4, F5. unfold f. cbn. auto.
+Qed.
+
+Lemma cancel_connect_R dl dw s beh h :
+  Inv dl s -> RInv dw s -> hvalid s h = true -> h_closed (hget s h) = false ->
+  RInv dw (cancel_connect s beh h).
+Proof.
+  intros I R Hv Hd. unfold cancel_connect.
+  destruct (h_conn (hget s h)) as [r|] eqn:Ec; [|exact R].
+  apply drop_req_R with (dl := dl); auto.
+  - unfold qreqs. cbn. rewrite Ec. apply Permutation_refl.
+  - destruct (q_ty _ _ (proj1 R) h Hv) as (T1 & T2). cbn. split; [|exact T2].
+    intros H. destruct (T1 H). auto.
+Qed.
+
+Lemma drain_closing_R dl dw s beh h :
+  Inv dl s -> RInv dw s -> hvalid s h = true -> h_closed (hget s h) = false ->
+  RInv dw (drain_closing s beh h).
+Proof.
+  intros I R Hv Hd. unfold drain_closing.
+  destruct (h_shut (hget s h)) as [r|] eqn:Ec; [|exact R].
+  apply drop_req_R with (dl := dl); auto.
+  - unfold qreqs. cbn. rewrite Ec. simpl. rewrite app_nil_r.
+    apply Permutation_trans with (l' := (oreq (h_conn (hget s h)) ++ h_wq (hget s h) ++ map fst (h_cq (hget s h))) ++ [r]).
+    + apply Permutation_cons_append.
+    + rewrite <- !app_assoc. apply Permutation_refl.
+  - destruct (q_ty _ _ (proj1 R) h Hv) as (T1 & T2). cbn. split; [|exact T2].
+    intros H. destruct (T1 H). auto.
+Qed.
+
+Lemma qreqs_nil x :
+  h_conn x = None -> h_wq x = [] -> h_cq x = [] -> h_shut x = None -> qreqs x = [].
+Proof. unfold qreqs. intros -> -> -> ->. reflexivity. Qed.
+
+Lemma qf_nil x t : qf x = (None, [], [], None, t) -> qreqs x = [].
+Proof. unfold qf. intros E. injection E as E1 E2 E3 E4 E5. apply qreqs_nil; assumption. Qed.
+
+(* CLOSED, close callback, callback body *)
+Lemma deliver_close_R h rest s beh :
+  Inv (CH h :: rest) s -> RInv [] s -> qreqs (hget s h) = [] -> RInv [] (deliver_close s beh h).
+Proof.
+  intros I [Q R] E. destruct (head_facts _ _ _ I) as (Hv & Hcl & Hd & Hx & Hn & Hnd).
+  pose proof (j_h _ _ I h Hv) as K.
+  unfold deliver_close. rewrite (k_led _ _ _ _ K Hcl). cbn [emit_leaks]. unfold ccallback.
+  set (s1 := upd_h s h (w_closed true)).
+  assert (I2 : Inv rest (set_ncb (emit s1 (ECloseCb h)) (S (ncb s1)))).
+  { apply Inv_ext with (s := emit s1 (ECloseCb h)); auto. apply Inv_close. exact I. }
+  apply capis_R with (dl := rest); [exact I2|].
+  apply RInv_ext with (s := emit s1 (ECloseCb h)); auto.
+  assert (G : forall h', qf (hget s1 h') = qf (hget s h')).
+  { intros h'. unfold s1. rewrite hget_upd. destruct (Nat.eqb h h' && hvalid s h) eqn:B; [|reflexivity].
+    apply andb_prop in B. destruct B as [B _]. apply Nat.eqb_eq in B. subst. reflexivity. }
+  assert (PE : forall r, pending [] s1 r <-> pending [] s r).
+  { intros r. unfold pending. split; intros [H|(h' & Hv' & Hr)]; auto; right; exists h'.
+    - unfold s1 in Hv'. rewrite hvalid_upd in Hv'. split; [exact Hv'|].
+      pose proof (G h') as G'. apply qf_eq in G'. destruct G' as (_ & _ & _ & _ & _ & G'). rewrite <- G'. exact Hr.
+    - unfold s1. rewrite hvalid_upd. split; [exact Hv'|].
+      pose proof (G h') as G'. apply qf_eq in G'. destruct G' as (_ & _ & _ & _ & _ & G'). fold s1. rewrite G'. exact Hr. }
+  split.
+  - apply QOK_same with (s := s1); [|reflexivity|intros h' Hv'; left; splits; auto].
+    unfold s1. apply QOK_upd with (dw := []); auto;
+      try (change (qreqs (w_closed true (hget s h))) with (qreqs (hget s h)); rewrite E; constructor; fail);
+      try (constructor; fail); try (intros r []); try apply (q_ty _ _ Q h Hv).
+  - apply HR_closecb with (s := s); auto.
+    intros r k Hin [[]|(h' & Hv' & Hr)].
+    pose proof (k_own _ _ _ _ (j_h _ _ I h' Hv') r Hr) as O1.
+    pose proof (r_sub _ _ R h r k Hin) as O2.
+    assert (h' = h) by congruence. subst h'. rewrite E in Hr. exact Hr.
+Qed.
+
+Lemma qreqs_nil_of_type dw s h :
+  QOK dw s -> hvalid s h = true -> h_ty (hget s h) <> TStream -> h_ty (hget s h) <> TUdp ->
+  qreqs (hget s h) = [].
+Proof.
+  intros Q Hv A B. destruct (q_ty _ _ Q h Hv) as (T1 & T2).
+  destruct (T1 A) as (C1 & C4). destruct (T2 A B) as (C2 & C3). apply qreqs_nil; auto.
+Qed.
+
+Lemma ccallback_R_frozen dl s beh r st cl h0 h :
+  Inv dl s -> lookup r (owner s) = Some h0 -> h_closed (hget s h0) = false ->
+  hvalid s h = true -> h_closing (hget s h) = true ->
+  qf (hget (ccallback s beh (EReqCb r st cl)) h) = qf (hget s h).
+Proof.
+  intros I L Hc Hv Hcl. apply ccallback_frozen with (dl := dl); auto.
+  apply Inv_reqcb_pre with (h := h0); auto.
+Qed.
+
+Lemma finish_close_R h rest s beh :
+  Inv (CH h :: rest) s -> RInv [] s -> RInv [] (finish_close s beh h).
+Proof.
+  intros I R. destruct (head_facts _ _ _ I) as (Hv & Hcl & Hd & Hx & Hn & Hnd).
+  pose proof (j_h _ _ I h Hv) as K.
+  unfold finish_close.
+  destruct (h_ty (hget s h)) eqn:Ty.
+  - apply deliver_close_R with (rest := rest); auto.
+    apply qreqs_nil_of_type with (dw := []); [apply R|exact Hv|congruence|congruence].
+  - (* stream *)
+    set (s1 := cancel_connect s beh h).
+    assert (S1 : Step (CH h :: rest) s s1) by (apply cancel_connect_step; auto).
+    assert (R1 : RInv [] s1) by (apply cancel_connect_R with (dl := CH h :: rest); auto).
+    destruct (Step_valid_open _ _ _ _ S1 Hv Hd) as (V1 & D1).
+    assert (C1 : h_closing (hget s1 h) = true) by (destruct S1 as [_ [F _]]; apply (F h Hv); exact Hcl).
+    assert (E1 : h_conn (hget s1 h) = None).
+    { unfold s1, cancel_connect. destruct (h_conn (hget s h)) as [r|] eqn:Ec; [|exact Ec].
+      assert (Iu : Inv (CH h :: rest) (upd_h s h (w_conn None))).
+      { apply Inv_upd; auto. eapply HOK_frame; eauto.
+        - intros r'. rewrite !in_qreqs. cbn. intros [H|H]; [discriminate|auto].
+        - apply (k_led _ _ _ _ K). }
+      pose proof (ccallback_R_frozen (CH h :: rest) (upd_h s h (w_conn None)) beh r UV_ECANCELED true h h Iu) as F.
+      rewrite hvalid_upd, hget_upd_same in F by exact Hv.
+      assert (Lr : lookup r (owner s) = Some h) by (apply (k_own _ _ _ _ K); apply in_qreqs; auto).
+      specialize (F Lr Hd Hv Hcl). apply qf_eq in F. destruct F as (F1 & _). rewrite F1. reflexivity. }
+    set (s2 := flush_and_run s1 beh h).
+    assert (S2 : Step (CH h :: rest) s1 s2) by (apply flush_and_run_step; auto; apply S1).
+    assert (R2 : RInv [] s2) by (apply flush_and_run_R with (dl := CH h :: rest); auto; apply S1).
+    destruct (flush_and_run_empty (CH h :: rest) s1 beh h (proj1 S1) V1 C1 D1) as (W2 & Q2 & N2 & H2 & T2).
+    fold s2 in W2, Q2, N2, H2, T2.
+    destruct (Step_valid_open _ _ _ _ S2 V1 D1) as (V2 & D2).
+    assert (C2 : h_closing (hget s2 h) = true) by (destruct S2 as [_ [F _]]; apply (F h V1); exact C1).
+    set (s3 := drain_closing s2 beh h).
+    assert (S3 : Step (CH h :: rest) s2 s3) by (apply drain_closing_step; auto; apply S2).
+    assert (R3 : RInv [] s3) by (apply drain_closing_R with (dl := CH h :: rest); auto; apply S2).
+    apply deliver_close_R with (rest := rest); [apply S3|exact R3|].
+    assert (Q3 : qf (hget s3 h) = (None, [], [], None, h_ty (hget s2 h)) ).
+    { unfold s3, drain_closing. destruct (h_shut (hget s2 h)) as [r|] eqn:Es.
+      - assert (K2 := j_h _ _ (proj1 S2) h V2).
+        assert (Iu : Inv (CH h :: rest) (upd_h s2 h (w_shut None))).
+        { apply Inv_upd; [apply S2|exact V2|]. eapply HOK_frame; eauto.
+          - intros r'. rewrite !in_qreqs. cbn. intros [H|[H|[H|H]]]; auto. discriminate.
+          - apply (k_led _ _ _ _ K2). }
+        pose proof (ccallback_R_frozen (CH h :: rest) (upd_h s2 h (w_shut None)) beh r UV_ECANCELED true h h Iu) as F.
+        rewrite hvalid_upd, hget_upd_same in F by exact V2.
+        assert (Lr : lookup r (owner s2) = Some h) by (apply (k_own _ _ _ _ K2); apply in_qreqs; auto).
+        specialize (F Lr D2 V2 C2). rewrite F. unfold qf. cbn. rewrite N2, E1, W2, Q2. reflexivity.
+      - unfold qf. rewrite N2, E1, W2, Q2, Es. reflexivity. }
+    apply (qf_nil _ _ Q3).
+  - (* udp *)
+    set (s2 := flush_and_run s beh h).
+    assert (S2 : Step (CH h :: rest) s s2) by (apply flush_and_run_step; auto).
+    assert (R2 : RInv [] s2) by (apply flush_and_run_R with (dl := CH h :: rest); auto).
+    destruct (flush_and_run_empty (CH h :: rest) s beh h I Hv Hcl Hd) as (W2 & Q2 & N2 & H2 & T2).
+    fold s2 in W2, Q2, N2, H2, T2.
+    apply deliver_close_R with (rest := rest); [apply S2|exact R2|].
+    destruct (q_ty _ _ (proj1 R) h Hv) as (T1 & _). destruct (T1 ltac:(congruence)) as (A1 & A2).
+    apply qreqs_nil; congruence.
+  - (* signal *)
+    destruct (0 <? h_sigpend (hget s h)).
+    + apply RInv_plain with (s := s) (l := [ETouch h]); auto.
+      * constructor; [|constructor]. unfold plain. splits; intros; try reflexivity; discriminate.
+      * apply QFS_hs. reflexivity.
+    + apply deliver_close_R with (rest := rest); auto.
+      apply qreqs_nil_of_type with (dw := []); [apply R|exact Hv|congruence|congruence].
+  - apply deliver_close_R with (rest := rest); auto.
+    apply qreqs_nil_of_type with (dw := []); [apply R|exact Hv|congruence|congruence].
+Qed.
+
+Lemma plain_touch h : plain (ETouch h).
+Proof. unfold plain. splits; intros; try reflexivity; discriminate. Qed.
+
+Lemma fp_timer_closed_QFS s h c : QFS s (fp_timer_closed s h c).
+Proof.
+  unfold fp_timer_closed. destruct (h_ctxs (hget s h)) as [|c0 rest]; [apply QFS_refl|].
+  destruct (Nat.eqb (c_id c0) c); [|apply QFS_upd; reflexivity].
+  destruct rest; [destruct (h_closing (hget s h))|]; try (apply QFS_upd; reflexivity).
+Qed.
+
+Lemma fp_timer_closed_misc s h c :
+  hist (fp_timer_closed s h c) = hist s /\ owner (fp_timer_closed s h c) = owner s /\
+  forall h', h_closed (hget (fp_timer_closed s h c) h') = h_closed (hget s h').
+Proof.
+  unfold fp_timer_closed. destruct (h_ctxs (hget s h)) as [|c0 rest]; [auto|].
+  assert (G : forall g h', (forall x, h_closed (g x) = h_closed x) ->
+                h_closed (hget (upd_h s h g) h') = h_closed (hget s h')).
+  { intros g h' Hg. rewrite hget_upd. destruct (Nat.eqb h h' && hvalid s h) eqn:B; [|reflexivity].
+    apply andb_prop in B. destruct B as [B _]. apply Nat.eqb_eq in B. subst. apply Hg. }
+  destruct (Nat.eqb (c_id c0) c).
+  - destruct rest; [destruct (h_closing (hget s h))|]; splits; auto; try (intros h'; apply G; reflexivity).
+  - splits; auto; try (intros h'; apply G; reflexivity).
+Qed.
+
+Lemma run_closing_R beh l : forall s, Inv l s -> RInv [] s -> RInv [] (run_closing l s beh).
+Proof.
+  induction l as [|[h|h c] l IH]; intros s I R; cbn [run_closing]; [exact R|..].
+  - apply IH; [apply finish_close_inv; exact I|apply finish_close_R with (rest := l); auto].
+  - assert (Hv : hvalid s h = true) by (apply (j_valid _ _ I (CT h c)); left; reflexivity).
+    assert (I1 : Inv (CT h c :: l) (emit s (ETouch h))).
+    { apply Inv_emit; auto; try discriminate. intros h' [Ha|(r & Hr & _)]; discriminate. }
+    apply IH.
+    + apply fp_timer_closed_inv; [|exact Hv]. apply Inv_drop_ct with (h := h) (c := c). exact I1.
+    + destruct (fp_timer_closed_misc (emit s (ETouch h)) h c) as (A & B & C).
+      apply RInv_plain with (s := s) (l := [ETouch h]); auto.
+      * constructor; [apply plain_touch|constructor].
+      * eapply QFS_trans; [|apply fp_timer_closed_QFS]. apply QFS_hs. reflexivity.
+      * intros h' _. rewrite C. auto.
+Qed.
+
+Lemma plain_hcb h : plain (EHCb h).
+Proof. unfold plain. splits; intros; try reflexivity; discriminate. Qed.
+
+Lemma h_cb_R s beh h : Inv [] s -> RInv [] s -> RInv [] (h_cb s beh h).
+Proof.
+  intros I R. unfold h_cb. destruct (usable s h) eqn:U; [|exact R].
+  apply usable_valid in U. destruct U as [Hv Hc].
+  assert (Hd : h_closed (hget s h) = false) by (eapply HOK_not_closing; [apply (j_h _ _ I h Hv)|exact Hc]).
+  unfold ccallback. apply capis_R with (dl := []).
+  - apply Inv_ext with (s := emit s (EHCb h)); auto. apply Inv_emit; auto; try discriminate.
+    intros h' [Ha|(r & Hr & _)] _; [|discriminate]. simpl in Ha. inversion Ha; subst. exact Hd.
+  - apply RInv_plain with (s := s) (l := [EHCb h]); auto.
+    + constructor; [apply plain_hcb|constructor].
+    + apply QFS_hs. reflexivity.
+Qed.
+
+Lemma fp_stat_R s h : RInv [] s -> RInv [] (fp_stat s h).
+Proof.
+  intros R. unfold fp_stat.
+  match goal with |- RInv _ (if ?c then _ else _) => destruct c end; [|exact R].
+  set (s0 := emit (emit s (ETouch h)) (EIn (OFpStat h))).
+  assert (P : Forall plain [EIn (OFpStat h); ETouch h]).
+  { constructor; [apply plain_op; intros; discriminate|constructor; [apply plain_touch|constructor]]. }
+  assert (G : forall l h', h_closed (hget (upd_h s0 h (w_ctxs l)) h') = h_closed (hget s h')).
+  { intros l h'. rewrite hget_upd. destruct (Nat.eqb h h' && hvalid s0 h) eqn:B; [|reflexivity].
+    apply andb_prop in B. destruct B as [B _]. apply Nat.eqb_eq in B. subst. reflexivity. }
+  destruct (stat_done _ _ _) as [l [[c [|]]|]].
+  - apply RInv_plain with (s := s) (l := [EIn (OFpStat h); ETouch h]); auto.
+    + eapply QFS_trans; [apply QFS_upd_hs with (s' := upd_h s0 h (w_ctxs l)) (h := h) (f := w_ctxs l); reflexivity|apply QFS_hs; reflexivity].
+    + intros h' _ H. change (hget (push_clq ?x ?e) h') with (hget x h') in H. rewrite G in H. exact H.
+  - apply RInv_plain with (s := s) (l := [EIn (OFpStat h); ETouch h]); auto.
+    + apply QFS_upd_hs with (h := h) (f := w_ctxs l); reflexivity.
+    + intros h' _ H. rewrite G in H. exact H.
+  - apply RInv_plain with (s := s) (l := [EIn (OFpStat h); ETouch h]); auto.
+    + apply QFS_upd_hs with (h := h) (f := w_ctxs l); reflexivity.
+    + intros h' _ H. rewrite G in H. exact H.
+Qed.
+
+Lemma req_cb_R s beh r st : Inv [] s -> RInv [] s -> RInv [] (req_cb s beh r st).
+Proof.
+  intros I R. unfold req_cb.
+  destruct (lookup r (owner s)) as [h|] eqn:Lr; [|exact R].
+  destruct (usable s h) eqn:U; [|exact R].
+  apply usable_valid in U. destruct U as [Hv Hc].
+  pose proof (j_h _ _ I h Hv) as K.
+  assert (Hd : h_closed (hget s h) = false) by (eapply HOK_not_closing; eauto).
+  destruct (q_ty _ _ (proj1 R) h Hv) as (T1 & T2).
+  destruct (opt_is (h_conn (hget s h)) r) eqn:E1.
+  - apply opt_is_true in E1.
+    assert (S1 : Step [] s (ccallback (upd_h s h (w_conn None)) beh (EReqCb r st false))).
+    { apply drop_req_step; auto.
+      - apply in_qreqs. auto.
+      - intros r'. rewrite !in_qreqs. cbn. intros [H|H]; [discriminate|auto]. }
+    assert (R1 : RInv [] (ccallback (upd_h s h (w_conn None)) beh (EReqCb r st false))).
+    { apply drop_req_R with (dl := []); auto.
+      - unfold qreqs. cbn. rewrite E1. apply Permutation_refl.
+      - cbn. split; [|exact T2]. intros H. destruct (T1 H). auto. }
+    destruct (Step_valid_open _ _ _ _ S1 Hv Hd) as (V1 & D1).
+    match goal with |- RInv _ (if ?c then _ else _) => destruct c end; [|exact R1].
+    apply flush_and_run_R with (dl := []); auto. apply S1.
+  - destruct (opt_is (h_shut (hget s h)) r) eqn:E2; [|exact R].
+    apply opt_is_true in E2.
+    apply drop_req_R with (dl := []); auto.
+    + unfold qreqs. cbn. rewrite E2. simpl. rewrite app_nil_r.
+      apply Permutation_trans with (l' := (oreq (h_conn (hget s h)) ++ h_wq (hget s h) ++ map fst (h_cq (hget s h))) ++ [r]).
+      * apply Permutation_cons_append.
+      * rewrite <- !app_assoc. apply Permutation_refl.
+    + cbn. split; [|exact T2]. intros H. destruct (T1 H). auto.
+Qed.
+
+Lemma batch_R s beh h : Inv [] s -> RInv [] s -> RInv [] (batch s beh h).
+Proof.
+  intros I R. unfold batch.
+  match goal with |- RInv _ (if ?c then _ else _) => destruct c eqn:U end; [|exact R].
+  apply andb_prop in U. destruct U as [U _]. apply usable_valid in U. destruct U as [Hv Hc].
+  pose proof (j_h _ _ I h Hv) as K.
+  assert (Hd : h_closed (hget s h) = false) by (eapply HOK_not_closing; eauto).
+  destruct (h_cq (hget s h)) as [|p pq] eqn:Eq; [exact R|].
+  set (se := emit s (EIn (OBatch h))).
+  assert (Ie : Inv [] se) by (apply Inv_emit_op with (h := h); auto).
+  assert (Re : RInv [] se).
+  { apply RInv_plain with (s := s) (l := [EIn (OBatch h)]); auto.
+    - constructor; [apply plain_op; intros; discriminate|constructor].
+    - apply QFS_hs. reflexivity. }
+  set (s0 := upd_h se h (w_cq [])).
+  assert (I0 : Inv [] s0).
+  { unfold s0. apply Inv_upd; auto. eapply HOK_frame; [apply (j_h _ _ Ie h Hv)|..]; auto.
+    - intros r. rewrite !in_qreqs. cbn. tauto.
+    - apply (k_led _ _ _ _ (j_h _ _ Ie h Hv)). }
+  assert (R0 : RInv (map fst (p :: pq) ++ []) s0).
+  { unfold s0. apply detach_R with (dl := []); auto.
+    - change (hget se h) with (hget s h). unfold qreqs. cbn [h_conn h_wq h_cq h_shut w_cq]. rewrite Eq.
+      apply (perm_batch (h_conn (hget s h)) (h_wq (hget s h)) (map fst (p :: pq)) (oreq (h_shut (hget s h)))).
+    - change (hget se h) with (hget s h). destruct (q_ty _ _ (proj1 R) h Hv) as (T1 & T2). cbn. split; auto.
+      intros A B. destruct (T2 A B) as (W & _). auto. }
+  assert (V0 : hvalid s0 h = true) by (unfold s0; rewrite hvalid_upd; exact Hv).
+  assert (D0 : h_closed (hget s0 h) = false).
+  { unfold s0. rewrite hget_upd_same by exact Hv. exact Hd. }
+  assert (Ho : forall r st, In (r, st) (p :: pq) -> lookup r (owner s0) = Some h).
+  { intros r st H. change (owner s0) with (owner s).
+    apply (k_own _ _ _ _ K). apply in_qreqs. right. right. left. rewrite Eq.
+    apply in_map_iff. exists (r, st). auto. }
+  assert (S1 : Step [] s0 (run_cq (p :: pq) h s0 beh)) by (apply run_cq_step; auto).
+  assert (R1 : RInv [] (run_cq (p :: pq) h s0 beh)) by (apply run_cq_R with (dl := []); auto).
+  destruct (Step_valid_open _ _ _ _ S1 V0 D0) as (V1 & D1).
+  match goal with |- RInv _ (if ?c then _ else _) => destruct c end; [|exact R1].
+  apply drain_closing_R with (dl := []); auto. apply S1.
+Qed.
+
+Lemma cstep_R s beh o : Inv [] s -> RInv [] s -> RInv [] (cstep s beh o).
+Proof.
+  intros I R. destruct o; cbn [cstep]; try (apply capi_R with (dl := []); assumption).
+  - apply req_cb_R; auto.
+  - apply batch_R; auto.
+  - apply h_cb_R; auto.
+  - apply fp_stat_R; auto.
+  - assert (Ie : Inv [] (emit s (EIn OPhase))).
+    { apply Inv_emit; auto; try discriminate. intros h [Ha|(r & Hr & _)]; discriminate. }
+    apply run_closing_R.
+    + change (clq s) with (clq (emit s (EIn OPhase))). apply Inv_detach. exact Ie.
+    + apply RInv_plain with (s := s) (l := [EIn OPhase]); auto.
+      * constructor; [apply plain_op; intros; discriminate|constructor].
+      * apply QFS_hs. reflexivity.
+Qed.
+
+Lemma crun_R beh os : forall s, Inv [] s -> RInv [] s -> RInv [] (crun s os beh).
+Proof.
+  induction os as [|o os IH]; intros s I R; cbn [crun]; auto.
+  apply IH; [apply cstep_inv; exact I|apply cstep_R; auto].
+Qed.
+
+Theorem reachable_rinv os beh : RInv [] (crun cinit os beh).
+Proof. apply crun_R; [apply Inv_init|apply RInv_init]. Qed.
+
+(* at CloseCb h every request accepted on h has had exactly one callback *)
+Theorem requests_first_exactly_once os beh pre h post r k :
+  ctrace os beh = pre ++ ECloseCb h :: post ->
+  In (EIn (OSubmit h r k)) pre -> cnt r pre = 1%nat.
+Proof.
+  intros Ht Hin. apply trace_split_hist in Ht.
+  destruct (reachable_rinv os beh) as [_ R].
+  rewrite <- cnt_rev. apply (r_good _ _ R (rev post) h (rev pre) Ht r k).
+  apply in_rev in Hin. exact Hin.
+Qed.
+
+(* ================================================================== *)
+(* the status of a callback delivered while the handle is closing     *)
+(* ================================================================== *)
+Definition nodone_fields (x : hst) (r : nat) : Prop :=
+  h_conn x = Some r \/ In r (h_wq x) \/ h_shut x = Some r.
+
+Record SInv (dws : list (nat * Z)) (s : cstate) : Prop := {
+  s_cq : forall h r st, hvalid s h = true -> In (r, st) (h_cq (hget s h)) -> In (EIn (ODone r st)) (hist s);
+  s_dw : forall r st, In (r, st) dws ->
+         In (EIn (ODone r st)) (hist s) \/ (st = UV_ECANCELED /\ ~ done_in r (hist s));
+  s_nodone : forall h r, hvalid s h = true -> nodone_fields (hget s h) r -> ~ done_in r (hist s);
+  s_st : forall later r st earlier, hist s = later ++ EReqCb r st true :: earlier ->
+         (exists st', In (EIn (ODone r st')) earlier /\ mapped st st') \/
+         (~ done_in r earlier /\ st = UV_ECANCELED)
+}.
+
+Lemma SInv_init : SInv [] cinit.
+Proof.
+  constructor; simpl.
+  - intros h r st H. destruct (hvalid_cinit h H).
+  - intros r st [].
+  - intros h r H. destruct (hvalid_cinit h H).
+  - intros later r st earlier H. destruct later; discriminate.
+Qed.
+
+Definition splain (e : cev) : Prop :=
+  (forall r st, e <> EIn (ODone r st)) /\ (forall r st, e <> EReqCb r st true).
+
+Lemma done_in_app_plain l H r : Forall splain l -> (done_in r (l ++ H) <-> done_in r H).
+Proof.
+  intros P. unfold done_in. split; intros (st & Hin); exists st.
+  - apply in_app_or in Hin. destruct Hin as [Hin|Hin]; [|exact Hin].
+    rewrite Forall_forall in P. destruct (P _ Hin) as (A & _). exfalso. eapply A; eauto.
+  - apply in_or_app. auto.
+Qed.
+
+(* history grows by events that are neither completions nor callbacks on a
+   closing handle; completed queues stay, the not-completed fields shrink or
+   stay; the detached list shrinks or stays *)
+Lemma SInv_keep dws dws' s s' l :
+  SInv dws s -> hist s' = l ++ hist s -> Forall splain l ->
+  (forall p, In p dws' -> In p dws) ->
+  (forall h, hvalid s' h = true ->
+     (hvalid s h = true /\ (forall p, In p (h_cq (hget s' h)) -> In p (h_cq (hget s h))) /\
+      (forall r, nodone_fields (hget s' h) r -> nodone_fields (hget s h) r \/ ~ done_in r (hist s))) \/
+     (h_cq (hget s' h) = [] /\ forall r, ~ nodone_fields (hget s' h) r)) ->
+  SInv dws' s'.
+Proof.
+  intros S A P D X. destruct S. constructor.
+  - intros h r st Hv Hin. rewrite A. apply in_or_app. right.
+    destruct (X h Hv) as [(V & C & _)|(C & _)]; [eauto|rewrite C in Hin; destruct Hin].
+  - intros r st Hin. rewrite A. destruct (s_dw0 r st (D _ Hin)) as [H|(H1 & H2)].
+    + left. apply in_or_app. auto.
+    + right. split; [exact H1|]. rewrite done_in_app_plain by exact P. exact H2.
+  - intros h r Hv Hn. rewrite A, done_in_app_plain by exact P.
+    destruct (X h Hv) as [(V & _ & N)|(_ & N)]; [|exfalso; eapply N; eauto].
+    destruct (N r Hn) as [H|H]; [eauto|exact H].
+  - intros later r st earlier Hs. rewrite A in Hs.
+    destruct (list_split_mid l (hist s) later (EReqCb r st true) earlier Hs) as [(m & E1 & E2)|(m & E1 & E2)].
+    + exfalso. rewrite Forall_forall in P.
+      assert (Hin : In (EReqCb r st true) l) by (rewrite E1; apply in_or_app; right; left; reflexivity).
+      destruct (P _ Hin) as (_ & B). eapply B; eauto.
+    + apply (s_st0 m r st earlier E2).
+Qed.
+
+(* a callback on a closing handle with the status the invariant prescribes *)
+Lemma SInv_emit_true dws dws' s s1 r st :
+  SInv dws s -> hist s1 = hist s ->
+  ((exists st', In (EIn (ODone r st')) (hist s) /\ mapped st st') \/
+   (~ done_in r (hist s) /\ st = UV_ECANCELED)) ->
+  (forall p, In p dws' -> In p dws) ->
+  (forall h, hvalid s1 h = true ->
+     hvalid s h = true /\ (forall p, In p (h_cq (hget s1 h)) -> In p (h_cq (hget s h))) /\
+     (forall r', nodone_fields (hget s1 h) r' -> nodone_fields (hget s h) r')) ->
+  SInv dws' (emit s1 (EReqCb r st true)).
+Proof.
+  intros S A ST D X. destruct S.
+  assert (DI : forall r', done_in r' (EReqCb r st true :: hist s) <-> done_in r' (hist s)).
+  { intros r'. unfold done_in. split; intros (st' & H); exists st'; [destruct H as [H|H]; [discriminate|exact H]|right; exact H]. }
+  constructor; cbn [hist emit]; rewrite ?A.
+  - intros h r' st' Hv Hin. right. destruct (X h Hv) as (V & C & _). eauto.
+  - intros r' st' Hin. destruct (s_dw0 r' st' (D _ Hin)) as [H|(H1 & H2)]; [left; right; exact H|].
+    right. split; [exact H1|]. rewrite DI. exact H2.
+  - intros h r' Hv Hn. rewrite DI. destruct (X h Hv) as (V & _ & N). eauto.
+  - intros later r' st' earlier Hs. destruct later as [|x later]; simpl in Hs.
+    + inversion Hs; subst. exact ST.
+    + inversion Hs; subst x. eapply s_st0; eauto.
+Qed.
+
+Lemma qf_fields x y : qf x = qf y ->
+  (forall p, In p (h_cq x) -> In p (h_cq y)) /\ (forall r, nodone_fields x r -> nodone_fields y r).
+Proof.
+  intros E. apply qf_eq in E. destruct E as (E1 & E2 & E3 & E4 & _). unfold nodone_fields.
+  rewrite E1, E2, E3, E4. auto.
+Qed.
+
+Lemma splain_op o : (forall r st, o <> ODone r st) -> splain (EIn o).
+Proof. intros H. split; intros r st E; [inversion E; eapply H; eauto|discriminate]. Qed.
+
+Lemma SInv_plain dws s s' l :
+  SInv dws s -> hist s' = l ++ hist s -> Forall splain l -> QFS s s' -> SInv dws s'.
+Proof.
+  intros S A P F. apply SInv_keep with (dws := dws) (s := s) (l := l); auto.
+  intros h Hv. left. destruct (QFS_get _ _ F h) as (G1 & G2). rewrite G1 in Hv.
+  destruct (qf_fields _ _ G2) as (C & N). splits; auto.
+Qed.
+
+Lemma capi_S dl dws s o :
+  Inv dl s -> RInv (map fst dws) s -> SInv dws s -> SInv dws (capi s o).
+Proof.
+  intros I [Q R] S. destruct (queue_op o) eqn:QO.
+  2:{ assert (ND : forall r st, o <> ODone r st) by (intros r st ->; discriminate).
+      destruct (capi_hist s o) as [H|H].
+      - apply SInv_plain with (s := s) (l := []); auto. apply capi_QFS; exact QO.
+      - apply SInv_plain with (s := s) (l := [EIn o]); auto.
+        + constructor; [apply splain_op; exact ND|constructor].
+        + apply capi_QFS; exact QO. }
+  destruct o; try discriminate; cbn [capi].
+  - (* OInit *)
+    set (x := mkHS t false false None [] [] None [] 0 false []).
+    apply SInv_keep with (dws := dws) (s := s) (l := [EIn (OInit t)]); auto.
+    + constructor; [apply splain_op; intros; discriminate|constructor].
+    + intros h Hv. change (hvalid (set_hs s (hs s ++ [x])) h = true) in Hv.
+      change (hget (emit (set_hs s (hs s ++ [x])) (EIn (OInit t))) h) with (hget (set_hs s (hs s ++ [x])) h).
+      destruct (hvalid s h) eqn:E.
+      * left. rewrite hget_app_old by exact E. splits; auto.
+      * right. apply hvalid_lt in Hv. cbn [hs set_hs] in Hv. rewrite app_length in Hv. simpl in Hv.
+        unfold hvalid in E. apply Nat.ltb_ge in E. assert (h = length (hs s)) by lia. subst h.
+        rewrite hget_app_new. unfold x, nodone_fields. cbn. split; [reflexivity|].
+        intros r [H|[H|H]]; try discriminate. destruct H.
+  - (* OSubmit *)
+    destruct (usable s h && match lookup r (owner s) with None => true | Some _ => false end) eqn:U; [|exact S].
+    apply andb_prop in U. destruct U as [U Fr]. apply usable_valid in U. destruct U as [Hv Hc].
+    destruct (lookup r (owner s)) eqn:Lr; [discriminate|].
+    assert (NDr : ~ done_in r (hist s)).
+    { intros (st & H). apply (j_ro _ _ I _ r H); [reflexivity|exact Lr]. }
+    assert (GEN : forall f,
+              h_cq (f (hget s h)) = h_cq (hget s h) ->
+              (forall r', nodone_fields (f (hget s h)) r' -> nodone_fields (hget s h) r' \/ r' = r) ->
+              SInv dws (emit (upd_h (set_owner s ((r, h) :: owner s)) h f) (EIn (OSubmit h r kind)))).
+    { intros f Fc Fn.
+      apply SInv_keep with (dws := dws) (s := s) (l := [EIn (OSubmit h r kind)]); auto.
+      - constructor; [apply splain_op; intros; discriminate|constructor].
+      - intros h' Hv'. left.
+        change (hvalid (upd_h (set_owner s ((r, h) :: owner s)) h f) h' = true) in Hv'. rewrite hvalid_upd in Hv'.
+        change (hget (emit ?a ?e) h') with (hget a h').
+        split; [exact Hv'|]. destruct (Nat.eq_dec h h') as [<-|Hne].
+        + rewrite hget_upd_same by exact Hv. change (hget (set_owner s ((r, h) :: owner s)) h) with (hget s h).
+          split; [rewrite Fc; auto|]. intros r' Hn. destruct (Fn r' Hn) as [H | ->]; auto.
+        + rewrite hget_upd_other by exact Hne. auto. }
+    destruct kind as [|[|[|[|kind]]]]; destruct (h_ty (hget s h)) eqn:Ty; try exact S.
+    + destruct (h_conn (hget s h)) eqn:Ec; [exact S|]. apply GEN; [reflexivity|].
+      unfold nodone_fields. cbn. intros r' [H|[H|H]]; auto. inversion H. auto.
+    + apply GEN; [reflexivity|]. unfold nodone_fields. cbn. intros r' [H|[H|H]]; auto.
+      apply in_app_or in H. destruct H as [H|[H|[]]]; auto.
+    + destruct (h_shut (hget s h)) eqn:Ec; [exact S|]. apply GEN; [reflexivity|].
+      unfold nodone_fields. cbn. intros r' [H|[H|H]]; auto. inversion H. auto.
+    + apply GEN; [reflexivity|]. unfold nodone_fields. cbn. intros r' [H|[H|H]]; auto.
+      apply in_app_or in H. destruct H as [H|[H|[]]]; auto.
+  - (* ODone *)
+    destruct (lookup r (owner s)) as [h|] eqn:Lr; [|exact S].
+    destruct (h_wq (hget s h)) as [|r' rest] eqn:Ew; [exact S|].
+    destruct (Nat.eqb r r' && usable s h) eqn:U; [|exact S].
+    apply andb_prop in U. destruct U as [Er U]. apply Nat.eqb_eq in Er. subst r'.
+    apply usable_valid in U. destruct U as [Hv Hc].
+    set (f := fun x => w_cq (h_cq x ++ [(r, st)]) (w_wq rest x)).
+    assert (Hq : In r (qreqs (hget s h))) by (apply in_qreqs; right; left; rewrite Ew; left; reflexivity).
+    assert (ND0 : ~ done_in r (hist s)).
+    { apply (s_nodone _ _ S h r Hv). right. left. rewrite Ew. left. reflexivity. }
+    pose proof (q_nd _ _ Q h Hv) as NDq.
+    (* r occurs nowhere else *)
+    assert (OTHER : forall h' r', hvalid s h' = true ->
+              nodone_fields (hget (upd_h s h f) h') r' -> r' <> r /\ nodone_fields (hget s h') r').
+    { intros h' r' Hv' Hn. destruct (Nat.eq_dec h h') as [<-|Hne].
+      - rewrite hget_upd_same in Hn by exact Hv. unfold nodone_fields, f in Hn. cbn in Hn.
+        assert (Hin : In r' (oreq (h_conn (hget s h)) ++ rest ++ map fst (h_cq (hget s h)) ++ oreq (h_shut (hget s h)))).
+        { rewrite !in_app_iff. unfold oreq. destruct Hn as [H|[H|H]]; [rewrite H; left; left; reflexivity|auto|rewrite H; right; right; right; left; reflexivity]. }
+        assert (NDs : NoDup (r :: oreq (h_conn (hget s h)) ++ rest ++ map fst (h_cq (hget s h)) ++ oreq (h_shut (hget s h)))).
+        { apply (Permutation_NoDup (l := qreqs (hget s h))); [|exact NDq].
+          unfold qreqs. rewrite Ew. simpl. apply perm_mid. }
+        inversion NDs; subst. split; [intros ->; contradiction|].
+        unfold nodone_fields. rewrite Ew. destruct Hn as [H|[H|H]]; auto. right. left. right. exact H.
+      - rewrite hget_upd_other in Hn by exact Hne. split; [|exact Hn].
+        intros ->. apply Hne. eapply same_owner_same_handle with (r := r); eauto.
+        apply in_qreqs. destruct Hn as [H|[H|H]]; auto. }
+    assert (DI : forall r', r' <> r -> (done_in r' (EIn (ODone r st) :: hist s) <-> done_in r' (hist s))).
+    { intros r' Hne. unfold done_in. split; intros (st' & H); exists st'.
+      - destruct H as [H|H]; [inversion H; congruence|exact H].
+      - right. exact H. }
+    destruct S. constructor; cbn [hist emit].
+    + intros h' r' st' Hv' Hin. change (hvalid (upd_h s h f) h' = true) in Hv'. rewrite hvalid_upd in Hv'.
+      change (hget (emit ?a ?e) h') with (hget a h') in Hin.
+      destruct (Nat.eq_dec h h') as [<-|Hne].
+      * rewrite hget_upd_same in Hin by exact Hv. unfold f in Hin. cbn in Hin. apply in_app_or in Hin.
+        destruct Hin as [Hin|[Hin|[]]]; [right; eauto|left; inversion Hin; reflexivity].
+      * rewrite hget_upd_other in Hin by exact Hne. right. eauto.
+    + intros r' st' Hin. destruct (s_dw0 r' st' Hin) as [H|(H1 & H2)]; [left; right; exact H|].
+      right. split; [exact H1|]. rewrite DI; [exact H2|]. intros ->.
+      destruct (q_dw _ _ Q r) as (_ & D2); [apply in_map_iff; exists (r, st'); auto|]. apply (D2 h Hv Hq).
+    + intros h' r' Hv' Hn. change (hvalid (upd_h s h f) h' = true) in Hv'. rewrite hvalid_upd in Hv'.
+      change (hget (emit ?a ?e) h') with (hget a h') in Hn.
+      destruct (OTHER h' r' Hv' Hn) as (Hne & Hn'). rewrite DI by exact Hne. eauto.
+    + intros later r' st' earlier Hs. destruct later as [|x later]; simpl in Hs; [discriminate|].
+      inversion Hs; subst x. eapply s_st0; eauto.
+Qed.
+
+Lemma capis_S dl dws os : forall s,
+  Inv dl s -> RInv (map fst dws) s -> SInv dws s -> SInv dws (capis s os).
+Proof.
+  induction os as [|o os IH]; intros s I R S; cbn [capis]; [exact S|].
+  apply IH; [apply (capi_step dl s o I)|apply capi_R with (dl := dl); auto|apply capi_S with (dl := dl); auto].
+Qed.
+
+Lemma SInv_ext dws s s' :
+  SInv dws s -> hs s' = hs s -> hist s' = hist s -> SInv dws s'.
+Proof.
+  intros S A C. destruct s, s'; simpl in *; subst. destruct S; constructor; assumption.
+Qed.
+
+(* the callback body after a request callback event (the event has been
+   accounted for in all three invariants) *)
+Lemma body_S dl dws s beh e :
+  Inv dl (set_ncb (emit s e) (Datatypes.S (ncb s))) -> RInv (map fst dws) (emit s e) -> SInv dws (emit s e) ->
+  SInv dws (ccallback s beh e).
+Proof.
+  intros I R S. unfold ccallback. apply capis_S with (dl := dl); auto.
+  - apply RInv_ext with (s := emit s e); auto.
+  - apply SInv_ext with (s := emit s e); auto.
+Qed.
+
+Lemma splain_false r st : splain (EReqCb r st false).
+Proof. split; intros; discriminate. Qed.
+
+(* the head of the detached list is delivered (closing or not) *)
+Lemma dw_deliver_S dl dws s beh r st0 h :
+  Inv dl s -> RInv (map fst ((r, st0) :: dws)) s -> SInv ((r, st0) :: dws) s ->
+  lookup r (owner s) = Some h -> hvalid s h = true -> h_closed (hget s h) = false ->
+  SInv dws (ccallback s beh (EReqCb r (cbstatus (h_ty (hget s h)) st0) (h_closing (hget s h)))).
+Proof.
+  intros I R S L Hv Hd.
+  set (ev := EReqCb r (cbstatus (h_ty (hget s h)) st0) (h_closing (hget s h))).
+  assert (I1 : Inv dl (set_ncb (emit s ev) (Datatypes.S (ncb s)))) by (apply Inv_reqcb_pre with (h := h); auto).
+  assert (R1 : RInv (map fst dws) (emit s ev)).
+  { simpl in R. pose proof R as [Q _]. pose proof (q_dwnd _ _ Q) as N. inversion N; subst.
+    destruct (q_dw _ _ Q r ltac:(left; reflexivity)) as (_ & NQ).
+    split.
+    - destruct Q. constructor; auto. intros r' Hr. apply q_dw0. right. exact Hr.
+    - apply HR_deliver with (dw := r :: map fst dws) (s := s); auto.
+      + apply R.
+      + congruence.
+      + left. left. reflexivity.
+      + intros r'. unfold pending. split.
+        * intros [H|(h' & Hv' & Hr)].
+          -- split; [left; right; exact H|]. intros ->. contradiction.
+          -- split; [right; exists h'; auto|]. intros ->. apply (NQ h' Hv' Hr).
+        * intros ([[->|H]|H] & Hne); [contradiction|left; exact H|right; exact H]. }
+  apply body_S with (dl := dl); auto.
+  unfold ev. destruct (h_closing (hget s h)).
+  - apply SInv_emit_true with (dws := (r, st0) :: dws) (s := s); auto.
+    + destruct (s_dw _ _ S r st0 ltac:(left; reflexivity)) as [H|(H1 & H2)].
+      * left. exists st0. split; [exact H|apply cbstatus_mapped].
+      * right. split; [exact H2|]. rewrite H1. apply cbstatus_cancel.
+    + intros p Hp. right. exact Hp.
+  - apply SInv_keep with (dws := (r, st0) :: dws) (s := s) (l := [EReqCb r (cbstatus (h_ty (hget s h)) st0) false]); auto.
+    + constructor; [apply splain_false|constructor].
+    + intros p Hp. right. exact Hp.
+Qed.
+
+Lemma run_cq_S dl beh h l : forall dws s,
+  Inv dl s -> RInv (map fst (l ++ dws)) s -> SInv (l ++ dws) s ->
+  hvalid s h = true -> h_closed (hget s h) = false ->
+  (forall r st, In (r, st) l -> lookup r (owner s) = Some h) ->
+  SInv dws (run_cq l h s beh).
+Proof.
+  induction l as [|[r st] l IH]; intros dws s I R S Hv Hc Ho; cbn [run_cq]; [exact S|].
+  set (s1 := ccallback s beh (EReqCb r (cbstatus (h_ty (hget s h)) st) (h_closing (hget s h)))).
+  assert (L : lookup r (owner s) = Some h) by (apply (Ho r st); left; reflexivity).
+  assert (S1 : Step dl s s1) by (apply reqcb_step with (h := h); auto).
+  destruct S1 as [I1 [F1 F2]]. destruct (F1 h Hv) as (V1 & C1 & _).
+  apply IH; auto.
+  - simpl in R. apply dw_deliver_R with (dl := dl) (h := h); auto.
+  - simpl in S. apply dw_deliver_S with (dl := dl); auto.
+  - congruence.
+  - intros r' st' H. apply F2. apply (Ho r' st'). right. exact H.
+Qed.
+
+(* requests move from the queues of h to the detached list with their status *)
+Lemma detach_S dws s h f pq :
+  SInv dws s -> hvalid s h = true ->
+  (forall r st, In (r, st) pq -> In (r, st) (h_cq (hget s h)) \/ (st = UV_ECANCELED /\ In r (h_wq (hget s h)))) ->
+  (forall p, In p (h_cq (f (hget s h))) -> In p (h_cq (hget s h))) ->
+  (forall r, nodone_fields (f (hget s h)) r -> nodone_fields (hget s h) r) ->
+  SInv (pq ++ dws) (upd_h s h f).
+Proof.
+  intros S Hv P C N. destruct S. constructor.
+  - intros h' r st Hv' Hin. rewrite hvalid_upd in Hv'. change (hist (upd_h s h f)) with (hist s).
+    destruct (Nat.eq_dec h h') as [<-|Hne].
+    + rewrite hget_upd_same in Hin by exact Hv. eauto.
+    + rewrite hget_upd_other in Hin by exact Hne. eauto.
+  - intros r st Hin. change (hist (upd_h s h f)) with (hist s). apply in_app_or in Hin.
+    destruct Hin as [Hin|Hin]; [|auto].
+    destruct (P r st Hin) as [H|(H1 & H2)]; [left; eauto|].
+    right. split; [exact H1|]. apply (s_nodone0 h r Hv). right. left. exact H2.
+  - intros h' r Hv' Hn. rewrite hvalid_upd in Hv'. change (hist (upd_h s h f)) with (hist s).
+    destruct (Nat.eq_dec h h') as [<-|Hne].
+    + rewrite hget_upd_same in Hn by exact Hv. eauto.
+    + rewrite hget_upd_other in Hn by exact Hne. eauto.
+  - exact s_st0.
+Qed.
+
+Lemma in_cancelled_inv r st l : In (r, st) (cancelled l) -> st = UV_ECANCELED /\ In r l.
+Proof. unfold cancelled. rewrite in_map_iff. intros (x & E & H). inversion E; subst. auto. Qed.
+
+Lemma flush_and_run_S dl s beh h :
+  Inv dl s -> RInv [] s -> SInv [] s -> hvalid s h = true -> h_closed (hget s h) = false ->
+  SInv [] (flush_and_run s beh h).
+Proof.
+  intros I R S Hv Hd. unfold flush_and_run. pose proof (j_h _ _ I h Hv) as K.
+  set (f := fun x => w_cq [] (w_wq [] x)).
+  set (pq := h_cq (hget s h) ++ cancelled (h_wq (hget s h))).
+  assert (I1 : Inv dl (upd_h s h f)).
+  { apply Inv_upd; auto. eapply HOK_frame; eauto.
+    - intros r. rewrite !in_qreqs. unfold f. cbn. tauto.
+    - apply (k_led _ _ _ _ K). }
+  assert (R1 : RInv (map fst (pq ++ [])) (upd_h s h f)).
+  { rewrite app_nil_r. unfold pq. rewrite map_app, map_fst_cancelled.
+    rewrite <- (app_nil_r (map fst (h_cq (hget s h)) ++ h_wq (hget s h))).
+    apply detach_R with (dl := dl); auto.
+    - unfold qreqs, f. cbn. apply perm_flush.
+    - destruct (q_ty _ _ (proj1 R) h Hv) as (T1 & T2). unfold f. cbn. split; auto. }
+  apply run_cq_S with (dl := dl); auto.
+  - apply detach_S; auto.
+    + intros r st H. unfold pq in H. apply in_app_or in H. destruct H as [H|H]; [left; exact H|right].
+      apply in_cancelled_inv. exact H.
+    + unfold f. cbn. intros p [].
+    + unfold f, nodone_fields. cbn. intros r [H|[[]|H]]; auto.
+  - rewrite hvalid_upd. exact Hv.
+  - rewrite hget_upd_same by exact Hv. exact Hd.
+  - intros r st H. change (owner (upd_h s h f)) with (owner s).
+    apply (k_own _ _ _ _ K). apply in_qreqs. unfold pq in H. apply in_app_or in H. destruct H as [H|H].
+    + right. right. left. apply in_map_iff. exists (r, st). auto.
+    + right. left. eapply in_cancelled; eauto.
+Qed.
+
+(* connect / shutdown request of h taken out and called back *)
+Lemma drop_req_S dl s beh h f r st cl :
+  Inv dl s -> RInv [] s -> SInv [] s -> hvalid s h = true -> h_closed (hget s h) = false ->
+  Permutation (r :: qreqs (f (hget s h))) (qreqs (hget s h)) ->
+  nodone_fields (hget s h) r ->
+  (cl = true -> st = UV_ECANCELED) ->
+  h_closing (f (hget s h)) = h_closing (hget s h) -> h_closed (f (hget s h)) = h_closed (hget s h) ->
+  h_ctxs (f (hget s h)) = h_ctxs (hget s h) -> h_ty (f (hget s h)) = h_ty (hget s h) ->
+  h_ledger (f (hget s h)) = h_ledger (hget s h) ->
+  h_cq (f (hget s h)) = h_cq (hget s h) ->
+  (forall r', nodone_fields (f (hget s h)) r' -> nodone_fields (hget s h) r') ->
+  ((h_ty (f (hget s h)) <> TStream -> h_conn (f (hget s h)) = None /\ h_shut (f (hget s h)) = None) /\
+   (h_ty (f (hget s h)) <> TStream -> h_ty (f (hget s h)) <> TUdp ->
+    h_wq (f (hget s h)) = [] /\ h_cq (f (hget s h)) = [])) ->
+  SInv [] (ccallback (upd_h s h f) beh (EReqCb r st cl)).
+Proof.
+  intros I R S Hv Hd P Nr CL A B C T L Cq Nf TY. pose proof (j_h _ _ I h Hv) as K.
+  assert (Hq : In r (qreqs (hget s h))) by (apply (Permutation_in _ P); left; reflexivity).
+  assert (Lr : lookup r (owner s) = Some h) by (apply (k_own _ _ _ _ K r Hq)).
+  assert (I1 : Inv dl (upd_h s h f)).
+  { apply Inv_upd; auto. eapply HOK_frame; eauto.
+    - intros y Hy. apply (Permutation_in _ P). right. exact Hy.
+    - rewrite A, L. apply (k_led _ _ _ _ K). }
+  set (s1 := upd_h s h f).
+  assert (G1 : hget s1 h = f (hget s h)) by (apply hget_upd_same; exact Hv).
+  assert (X : forall h', hvalid s1 h' = true ->
+                hvalid s h' = true /\ (forall p, In p (h_cq (hget s1 h')) -> In p (h_cq (hget s h'))) /\
+                (forall r', nodone_fields (hget s1 h') r' -> nodone_fields (hget s h') r')).
+  { intros h' Hv'. unfold s1 in Hv'. rewrite hvalid_upd in Hv'. split; [exact Hv'|].
+    destruct (Nat.eq_dec h h') as [<-|Hne].
+    - rewrite G1, Cq. auto.
+    - unfold s1. rewrite hget_upd_other by exact Hne. auto. }
+  assert (Ipre : Inv dl (set_ncb (emit s1 (EReqCb r st cl)) (Datatypes.S (ncb s1)))).
+  { apply Inv_reqcb_pre with (h := h); auto. rewrite G1. congruence. }
+  assert (Rc : RInv [] (ccallback s1 beh (EReqCb r st cl))) by (apply drop_req_R with (dl := dl); auto).
+  (* RInv of the state right after the event: re-derive as in drop_req_R *)
+  assert (Re : RInv (map fst (@nil (nat * Z))) (emit s1 (EReqCb r st cl))).
+  { pose proof (detach_R dl [] s h f [r] I R Hv P B TY) as [Q1 R1].
+    destruct (NoDup_app_l [r] [] (q_dwnd _ _ Q1)) as (_ & _ & _).
+    split.
+    - apply QOK_same with (s := s1); [|reflexivity|intros h' Hv'; left; splits; auto].
+      destruct Q1. constructor; auto; try (constructor; fail); try (intros r' []); try (simpl; constructor).
+    - apply HR_deliver with (dw := []) (s := s);
+        [apply R|reflexivity|reflexivity|congruence|right; exists h; auto|].
+      intros r'. unfold pending. split.
+        * intros [[]|(h' & Hv' & Hr)]. unfold s1 in Hv'. rewrite hvalid_upd in Hv'.
+          destruct (Nat.eq_dec h h') as [<-|Hne].
+          -- rewrite G1 in Hr. split; [right; exists h; split; [exact Hv|apply (Permutation_in _ P); right; exact Hr]|].
+             intros ->. pose proof (Permutation_NoDup (Permutation_sym P) (q_nd _ _ (proj1 R) h Hv)) as N.
+             inversion N; subst. contradiction.
+          -- unfold s1 in Hr. rewrite hget_upd_other in Hr by exact Hne.
+             split; [right; exists h'; auto|]. intros ->. apply Hne.
+             apply (same_owner_same_handle dl s h h' r I Hv Hv' Hq Hr).
+        * intros ([[]|(h' & Hv' & Hr)] & Hne). right. exists h'. unfold s1. rewrite hvalid_upd.
+          split; [exact Hv'|]. destruct (Nat.eq_dec h h') as [<-|Hne'].
+          -- rewrite hget_upd_same by exact Hv. apply (Permutation_in _ (Permutation_sym P)) in Hr.
+             destruct Hr as [E|Hr]; [congruence|exact Hr].
+          -- rewrite hget_upd_other by exact Hne'. exact Hr. }
+  apply body_S with (dl := dl); auto.
+  destruct cl.
+  - rewrite (CL eq_refl). apply SInv_emit_true with (dws := []) (s := s); auto.
+    right. split; [|reflexivity]. apply (s_nodone _ _ S h r Hv Nr).
+  - apply SInv_keep with (dws := []) (s := s) (l := [EReqCb r st false]); auto.
+    + constructor; [apply splain_false|constructor].
+    + intros h' Hv'. left. destruct (X h' Hv') as (V & Cc & Nn). splits; auto.
+Qed.
+
+Lemma cancel_connect_S dl s beh h :
+  Inv dl s -> RInv [] s -> SInv [] s -> hvalid s h = true -> h_closed (hget s h) = false ->
+  SInv [] (cancel_connect s beh h).
+Proof.
+  intros I R SI Hv Hd. unfold cancel_connect.
+  destruct (h_conn (hget s h)) as [r|] eqn:Ec; [|exact SI].
+  apply drop_req_S with (dl := dl); auto.
+  - unfold qreqs. cbn. rewrite Ec. apply Permutation_refl.
+  - left. exact Ec.
+  - unfold nodone_fields. cbn. intros r' [H|H]; [discriminate|auto].
+  - destruct (q_ty _ _ (proj1 R) h Hv) as (T1 & T2). cbn. split; [|exact T2].
+    intros H. destruct (T1 H). auto.
+Qed.
+
+Lemma drain_closing_S dl s beh h :
+  Inv dl s -> RInv [] s -> SInv [] s -> hvalid s h = true -> h_closed (hget s h) = false ->
+  SInv [] (drain_closing s beh h).
+Proof.
+  intros I R SI Hv Hd. unfold drain_closing.
+  destruct (h_shut (hget s h)) as [r|] eqn:Ec; [|exact SI].
+  apply drop_req_S with (dl := dl); auto.
+  - unfold qreqs. cbn. rewrite Ec. simpl. rewrite app_nil_r.
+    apply Permutation_trans with (l' := (oreq (h_conn (hget s h)) ++ h_wq (hget s h) ++ map fst (h_cq (hget s h))) ++ [r]).
+    + apply Permutation_cons_append.
+    + rewrite <- !app_assoc. apply Permutation_refl.
+  - right. right. exact Ec.
+  - unfold nodone_fields. cbn. intros r' [H|[H|H]]; auto. discriminate.
+  - destruct (q_ty _ _ (proj1 R) h Hv) as (T1 & T2). cbn. split; [|exact T2].
+    intros H. destruct (T1 H). auto.
+Qed.
+
+Lemma splain_closecb h : splain (ECloseCb h).
+Proof. split; intros; discriminate. Qed.
+
+Lemma deliver_close_S h rest s beh :
+  Inv (CH h :: rest) s -> RInv [] s -> SInv [] s -> qreqs (hget s h) = [] ->
+  SInv [] (deliver_close s beh h).
+Proof.
+  intros I R SI E. destruct (head_facts _ _ _ I) as (Hv & Hcl & Hd & Hx & Hn & Hnd).
+  pose proof (j_h _ _ I h Hv) as K.
+  pose proof (deliver_close_R h rest s beh I R E) as RR.
+  unfold deliver_close in *. rewrite (k_led _ _ _ _ K Hcl) in *. cbn [emit_leaks] in *.
+  set (s1 := upd_h s h (w_closed true)) in *.
+  assert (I2 : Inv rest (set_ncb (emit s1 (ECloseCb h)) (Datatypes.S (ncb s1)))).
+  { apply Inv_ext with (s := emit s1 (ECloseCb h)); auto. apply Inv_close. exact I. }
+  assert (G : forall h', qf (hget s1 h') = qf (hget s h')).
+  { intros h'. unfold s1. rewrite hget_upd. destruct (Nat.eqb h h' && hvalid s h) eqn:B; [|reflexivity].
+    apply andb_prop in B. destruct B as [B _]. apply Nat.eqb_eq in B. subst. reflexivity. }
+  apply body_S with (dl := rest); auto.
+  - (* RInv right after the event *)
+    destruct R as [Q R].
+    assert (PE : forall r, pending [] s1 r <-> pending [] s r).
+    { intros r. unfold pending. split; intros [H|(h' & Hv' & Hr)]; auto; right; exists h'.
+      - unfold s1 in Hv'. rewrite hvalid_upd in Hv'. split; [exact Hv'|].
+        pose proof (G h') as G'. apply qf_eq in G'. destruct G' as (_ & _ & _ & _ & _ & G'). rewrite <- G'. exact Hr.
+      - unfold s1. rewrite hvalid_upd. split; [exact Hv'|].
+        pose proof (G h') as G'. apply qf_eq in G'. destruct G' as (_ & _ & _ & _ & _ & G'). fold s1. rewrite G'. exact Hr. }
+    split.
+    + apply QOK_same with (s := s1); [|reflexivity|intros h' Hv'; left; splits; auto].
+      unfold s1. apply QOK_upd with (dw := []); auto;
+        try (change (qreqs (w_closed true (hget s h))) with (qreqs (hget s h)); rewrite E; constructor; fail);
+        try (constructor; fail); try (intros r []); try apply (q_ty _ _ Q h Hv).
+    + apply HR_closecb with (s := s); auto.
+      intros r k Hin [[]|(h' & Hv' & Hr)].
+      pose proof (k_own _ _ _ _ (j_h _ _ I h' Hv') r Hr) as O1.
+      pose proof (r_sub _ _ R h r k Hin) as O2.
+      assert (h' = h) by congruence. subst h'. rewrite E in Hr. exact Hr.
+  - apply SInv_keep with (dws := []) (s := s) (l := [ECloseCb h]); auto.
+    + constructor; [apply splain_closecb|constructor].
+    + intros h' Hv'. left. change (hvalid s1 h' = true) in Hv'. unfold s1 in Hv'. rewrite hvalid_upd in Hv'.
+      change (hget (emit s1 (ECloseCb h)) h') with (hget s1 h').
+      destruct (qf_fields _ _ (G h')) as (C & N). splits; auto.
+Qed.
+
+Lemma splain_touch h : splain (ETouch h).
+Proof. split; intros; discriminate. Qed.
+
+Lemma finish_close_S h rest s beh :
+  Inv (CH h :: rest) s -> RInv [] s -> SInv [] s -> SInv [] (finish_close s beh h).
+Proof.
+  intros I R SI. destruct (head_facts _ _ _ I) as (Hv & Hcl & Hd & Hx & Hn & Hnd).
+  pose proof (j_h _ _ I h Hv) as K.
+  unfold finish_close.
+  destruct (h_ty (hget s h)) eqn:Ty.
+  - apply deliver_close_S with (rest := rest); auto.
+    apply qreqs_nil_of_type with (dw := []); [apply R|exact Hv|congruence|congruence].
+  - (* stream *)
+    set (s1 := cancel_connect s beh h).
+    assert (S1 : Step (CH h :: rest) s s1) by (apply cancel_connect_step; auto).
+    assert (R1 : RInv [] s1) by (apply cancel_connect_R with (dl := CH h :: rest); auto).
+    assert (SI1 : SInv [] s1) by (apply cancel_connect_S with (dl := CH h :: rest); auto).
+    destruct (Step_valid_open _ _ _ _ S1 Hv Hd) as (V1 & D1).
+    assert (C1 : h_closing (hget s1 h) = true) by (destruct S1 as [_ [F _]]; apply (F h Hv); exact Hcl).
+    assert (E1 : h_conn (hget s1 h) = None).
+    { unfold s1, cancel_connect. destruct (h_conn (hget s h)) as [r|] eqn:Ec; [|exact Ec].
+      assert (Iu : Inv (CH h :: rest) (upd_h s h (w_conn None))).
+      { apply Inv_upd; auto. eapply HOK_frame; eauto.
+        - intros r'. rewrite !in_qreqs. cbn. intros [H|H]; [discriminate|auto].
+        - apply (k_led _ _ _ _ K). }
+      pose proof (ccallback_R_frozen (CH h :: rest) (upd_h s h (w_conn None)) beh r UV_ECANCELED true h h Iu) as F.
+      rewrite hvalid_upd, hget_upd_same in F by exact Hv.
+      assert (Lr : lookup r (owner s) = Some h) by (apply (k_own _ _ _ _ K); apply in_qreqs; auto).
+      specialize (F Lr Hd Hv Hcl). apply qf_eq in F. destruct F as (F1 & _). rewrite F1. reflexivity. }
+    set (s2 := flush_and_run s1 beh h).
+    assert (S2 : Step (CH h :: rest) s1 s2) by (apply flush_and_run_step; auto; apply S1).
+    assert (R2 : RInv [] s2) by (apply flush_and_run_R with (dl := CH h :: rest); auto; apply S1).
+    assert (SI2 : SInv [] s2) by (apply flush_and_run_S with (dl := CH h :: rest); auto; apply S1).
+    destruct (flush_and_run_empty (CH h :: rest) s1 beh h (proj1 S1) V1 C1 D1) as (W2 & Q2 & N2 & H2 & T2).
+    fold s2 in W2, Q2, N2, H2, T2.
+    destruct (Step_valid_open _ _ _ _ S2 V1 D1) as (V2 & D2).
+    assert (C2 : h_closing (hget s2 h) = true) by (destruct S2 as [_ [F _]]; apply (F h V1); exact C1).
+    set (s3 := drain_closing s2 beh h).
+    assert (S3 : Step (CH h :: rest) s2 s3) by (apply drain_closing_step; auto; apply S2).
+    assert (R3 : RInv [] s3) by (apply drain_closing_R with (dl := CH h :: rest); auto; apply S2).
+    assert (SI3 : SInv [] s3) by (apply drain_closing_S with (dl := CH h :: rest); auto; apply S2).
+    apply deliver_close_S with (rest := rest); [apply S3|exact R3|exact SI3|].
+    assert (Q3 : qf (hget s3 h) = (None, [], [], None, h_ty (hget s2 h)) ).
+    { unfold s3, drain_closing. destruct (h_shut (hget s2 h)) as [r|] eqn:Es.
+      - assert (K2 := j_h _ _ (proj1 S2) h V2).
+        assert (Iu : Inv (CH h :: rest) (upd_h s2 h (w_shut None))).
+        { apply Inv_upd; [apply S2|exact V2|]. eapply HOK_frame; eauto.
+          - intros r'. rewrite !in_qreqs. cbn. intros [H|[H|[H|H]]]; auto. discriminate.
+          - apply (k_led _ _ _ _ K2). }
+        pose proof (ccallback_R_frozen (CH h :: rest) (upd_h s2 h (w_shut None)) beh r UV_ECANCELED true h h Iu) as F.
+        rewrite hvalid_upd, hget_upd_same in F by exact V2.
+        assert (Lr : lookup r (owner s2) = Some h) by (apply (k_own _ _ _ _ K2); apply in_qreqs; auto).
+        specialize (F Lr D2 V2 C2). rewrite F. unfold qf. cbn. rewrite N2, E1, W2, Q2. reflexivity.
+      - unfold qf. rewrite N2, E1, W2, Q2, Es. reflexivity. }
+    apply (qf_nil _ _ Q3).
+  - (* udp *)
+    set (s2 := flush_and_run s beh h).
+    assert (S2 : Step (CH h :: rest) s s2) by (apply flush_and_run_step; auto).
+    assert (R2 : RInv [] s2) by (apply flush_and_run_R with (dl := CH h :: rest); auto).
+    assert (SI2 : SInv [] s2) by (apply flush_and_run_S with (dl := CH h :: rest); auto).
+    destruct (flush_and_run_empty (CH h :: rest) s beh h I Hv Hcl Hd) as (W2 & Q2 & N2 & H2 & T2).
+    fold s2 in W2, Q2, N2, H2, T2.
+    apply deliver_close_S with (rest := rest); [apply S2|exact R2|exact SI2|].
+    destruct (q_ty _ _ (proj1 R) h Hv) as (T1 & _). destruct (T1 ltac:(congruence)) as (A1 & A2).
+    apply qreqs_nil; congruence.
+  - (* signal *)
+    destruct (0 <? h_sigpend (hget s h)).
+    + apply SInv_plain with (s := s) (l := [ETouch h]); auto.
+      * constructor; [apply splain_touch|constructor].
+      * apply QFS_hs. reflexivity.
+    + apply deliver_close_S with (rest := rest); auto.
+      apply qreqs_nil_of_type with (dw := []); [apply R|exact Hv|congruence|congruence].
+  - apply deliver_close_S with (rest := rest); auto.
+    apply qreqs_nil_of_type with (dw := []); [apply R|exact Hv|congruence|congruence].
+Qed.
+
+Lemma run_closing_S beh l : forall s,
+  Inv l s -> RInv [] s -> SInv [] s -> SInv [] (run_closing l s beh).
+Proof.
+  induction l as [|[h|h c] l IH]; intros s I R SI; cbn [run_closing]; [exact SI|..].
+  - apply IH; [apply finish_close_inv; exact I|apply finish_close_R with (rest := l); auto
+              |apply finish_close_S with (rest := l); auto].
+  - assert (Hv : hvalid s h = true) by (apply (j_valid _ _ I (CT h c)); left; reflexivity).
+    assert (I1 : Inv (CT h c :: l) (emit s (ETouch h))).
+    { apply Inv_emit; auto; try discriminate. intros h' [Ha|(r & Hr & _)]; discriminate. }
+    destruct (fp_timer_closed_misc (emit s (ETouch h)) h c) as (A & B & C).
+    assert (QF : QFS s (fp_timer_closed (emit s (ETouch h)) h c)).
+    { eapply QFS_trans; [|apply fp_timer_closed_QFS]. apply QFS_hs. reflexivity. }
+    apply IH.
+    + apply fp_timer_closed_inv; [|exact Hv]. apply Inv_drop_ct with (h := h) (c := c). exact I1.
+    + apply RInv_plain with (s := s) (l := [ETouch h]); auto.
+      * constructor; [apply plain_touch|constructor].
+      * intros h' _. rewrite C. auto.
+    + apply SInv_plain with (s := s) (l := [ETouch h]); auto.
+      constructor; [apply splain_touch|constructor].
+Qed.
+
+Lemma splain_hcb h : splain (EHCb h).
+Proof. split; intros; discriminate. Qed.
+
+Lemma h_cb_S s beh h : Inv [] s -> RInv [] s -> SInv [] s -> SInv [] (h_cb s beh h).
+Proof.
+  intros I R SI. unfold h_cb. destruct (usable s h) eqn:U; [|exact SI].
+  apply usable_valid in U. destruct U as [Hv Hc].
+  assert (Hd : h_closed (hget s h) = false) by (eapply HOK_not_closing; [apply (j_h _ _ I h Hv)|exact Hc]).
+  apply body_S with (dl := []).
+  - apply Inv_ext with (s := emit s (EHCb h)); auto. apply Inv_emit; auto; try discriminate.
+    intros h' [Ha|(r & Hr & _)] _; [|discriminate]. simpl in Ha. inversion Ha; subst. exact Hd.
+  - apply RInv_plain with (s := s) (l := [EHCb h]); auto.
+    + constructor; [apply plain_hcb|constructor].
+    + apply QFS_hs. reflexivity.
+  - apply SInv_plain with (s := s) (l := [EHCb h]); auto.
+    + constructor; [apply splain_hcb|constructor].
+    + apply QFS_hs. reflexivity.
+Qed.
+
+Lemma fp_stat_S s h : SInv [] s -> SInv [] (fp_stat s h).
+Proof.
+  intros SI. unfold fp_stat.
+  match goal with |- SInv _ (if ?c then _ else _) => destruct c end; [|exact SI].
+  set (s0 := emit (emit s (ETouch h)) (EIn (OFpStat h))).
+  assert (P : Forall splain [EIn (OFpStat h); ETouch h]).
+  { constructor; [apply splain_op; intros; discriminate|constructor; [apply splain_touch|constructor]]. }
+  destruct (stat_done _ _ _) as [l [[c [|]]|]].
+  - apply SInv_plain with (s := s) (l := [EIn (OFpStat h); ETouch h]); auto.
+    eapply QFS_trans; [apply QFS_upd_hs with (s' := upd_h s0 h (w_ctxs l)) (h := h) (f := w_ctxs l); reflexivity|apply QFS_hs; reflexivity].
+  - apply SInv_plain with (s := s) (l := [EIn (OFpStat h); ETouch h]); auto.
+    apply QFS_upd_hs with (h := h) (f := w_ctxs l); reflexivity.
+  - apply SInv_plain with (s := s) (l := [EIn (OFpStat h); ETouch h]); auto.
+    apply QFS_upd_hs with (h := h) (f := w_ctxs l); reflexivity.
+Qed.
+
+Lemma req_cb_S s beh r st : Inv [] s -> RInv [] s -> SInv [] s -> SInv [] (req_cb s beh r st).
+Proof.
+  intros I R SI. unfold req_cb.
+  destruct (lookup r (owner s)) as [h|] eqn:Lr; [|exact SI].
+  destruct (usable s h) eqn:U; [|exact SI].
+  apply usable_valid in U. destruct U as [Hv Hc].
+  pose proof (j_h _ _ I h Hv) as K.
+  assert (Hd : h_closed (hget s h) = false) by (eapply HOK_not_closing; eauto).
+  destruct (q_ty _ _ (proj1 R) h Hv) as (T1 & T2).
+  destruct (opt_is (h_conn (hget s h)) r) eqn:E1.
+  - apply opt_is_true in E1.
+    set (s1 := ccallback (upd_h s h (w_conn None)) beh (EReqCb r st false)).
+    assert (S1 : Step [] s s1).
+    { apply drop_req_step; auto.
+      - apply in_qreqs. auto.
+      - intros r'. rewrite !in_qreqs. cbn. intros [H|H]; [discriminate|auto]. }
+    assert (PM : Permutation (r :: qreqs (w_conn None (hget s h))) (qreqs (hget s h))).
+    { unfold qreqs. cbn. rewrite E1. apply Permutation_refl. }
+    assert (TY : (h_ty (w_conn None (hget s h)) <> TStream ->
+                  h_conn (w_conn None (hget s h)) = None /\ h_shut (w_conn None (hget s h)) = None) /\
+                 (h_ty (w_conn None (hget s h)) <> TStream -> h_ty (w_conn None (hget s h)) <> TUdp ->
+                  h_wq (w_conn None (hget s h)) = [] /\ h_cq (w_conn None (hget s h)) = [])).
+    { cbn. split; [|exact T2]. intros H. destruct (T1 H). auto. }
+    assert (R1 : RInv [] s1) by (apply drop_req_R with (dl := []); auto).
+    assert (SI1 : SInv [] s1).
+    { apply drop_req_S with (dl := []); auto.
+      - left. exact E1.
+      - intros H. discriminate.
+      - unfold nodone_fields. cbn. intros r' [H|H]; [discriminate|auto]. }
+    destruct (Step_valid_open _ _ _ _ S1 Hv Hd) as (V1 & D1).
+    match goal with |- SInv _ (if ?c then _ else _) => destruct c end; [|exact SI1].
+    apply flush_and_run_S with (dl := []); auto. apply S1.
+  - destruct (opt_is (h_shut (hget s h)) r) eqn:E2; [|exact SI].
+    apply opt_is_true in E2.
+    apply drop_req_S with (dl := []); auto.
+    + unfold qreqs. cbn. rewrite E2. simpl. rewrite app_nil_r.
+      apply Permutation_trans with (l' := (oreq (h_conn (hget s h)) ++ h_wq (hget s h) ++ map fst (h_cq (hget s h))) ++ [r]).
+      * apply Permutation_cons_append.
+      * rewrite <- !app_assoc. apply Permutation_refl.
+    + right. right. exact E2.
+    + intros H. discriminate.
+    + unfold nodone_fields. cbn. intros r' [H|[H|H]]; auto. discriminate.
+    + cbn. split; [|exact T2]. intros H. destruct (T1 H). auto.
+Qed.
+
+Lemma batch_S s beh h : Inv [] s -> RInv [] s -> SInv [] s -> SInv [] (batch s beh h).
+Proof.
+  intros I R SI. unfold batch.
+  match goal with |- SInv _ (if ?c then _ else _) => destruct c eqn:U end; [|exact SI].
+  apply andb_prop in U. destruct U as [U _]. apply usable_valid in U. destruct U as [Hv Hc].
+  pose proof (j_h _ _ I h Hv) as K.
+  assert (Hd : h_closed (hget s h) = false) by (eapply HOK_not_closing; eauto).
+  destruct (h_cq (hget s h)) as [|p pq] eqn:Eq; [exact SI|].
+  set (se := emit s (EIn (OBatch h))).
+  assert (Ie : Inv [] se) by (apply Inv_emit_op with (h := h); auto).
+  assert (Re : RInv [] se).
+  { apply RInv_plain with (s := s) (l := [EIn (OBatch h)]); auto.
+    - constructor; [apply plain_op; intros; discriminate|constructor].
+    - apply QFS_hs. reflexivity. }
+  assert (Se : SInv [] se).
+  { apply SInv_plain with (s := s) (l := [EIn (OBatch h)]); auto.
+    - constructor; [apply splain_op; intros; discriminate|constructor].
+    - apply QFS_hs. reflexivity. }
+  set (s0 := upd_h se h (w_cq [])).
+  assert (I0 : Inv [] s0).
+  { unfold s0. apply Inv_upd; auto. eapply HOK_frame; [apply (j_h _ _ Ie h Hv)|..]; auto.
+    - intros r. rewrite !in_qreqs. cbn. tauto.
+    - apply (k_led _ _ _ _ (j_h _ _ Ie h Hv)). }
+  assert (R0 : RInv (map fst ((p :: pq) ++ [])) s0).
+  { rewrite app_nil_r. rewrite <- (app_nil_r (map fst (p :: pq))).
+    unfold s0. apply detach_R with (dl := []); auto.
+    - change (hget se h) with (hget s h). unfold qreqs. cbn [h_conn h_wq h_cq h_shut w_cq]. rewrite Eq.
+      apply (perm_batch (h_conn (hget s h)) (h_wq (hget s h)) (map fst (p :: pq)) (oreq (h_shut (hget s h)))).
+    - change (hget se h) with (hget s h). destruct (q_ty _ _ (proj1 R) h Hv) as (T1 & T2). cbn. split; auto.
+      intros A B. destruct (T2 A B) as (W & _). auto. }
+  assert (SI0 : SInv ((p :: pq) ++ []) s0).
+  { unfold s0. apply detach_S; auto.
+    - change (hget se h) with (hget s h). rewrite Eq. intros r st H. left. exact H.
+    - cbn. intros q []. }
+  assert (V0 : hvalid s0 h = true) by (unfold s0; rewrite hvalid_upd; exact Hv).
+  assert (D0 : h_closed (hget s0 h) = false).
+  { unfold s0. rewrite hget_upd_same by exact Hv. exact Hd. }
+  assert (Ho : forall r st, In (r, st) (p :: pq) -> lookup r (owner s0) = Some h).
+  { intros r st H. change (owner s0) with (owner s).
+    apply (k_own _ _ _ _ K). apply in_qreqs. right. right. left. rewrite Eq.
+    apply in_map_iff. exists (r, st). auto. }
+  assert (S1 : Step [] s0 (run_cq (p :: pq) h s0 beh)) by (apply run_cq_step; auto).
+  assert (R1 : RInv [] (run_cq (p :: pq) h s0 beh)).
+  { apply run_cq_R with (dl := []); auto. rewrite app_nil_r in R0. rewrite app_nil_r. exact R0. }
+  assert (SI1 : SInv [] (run_cq (p :: pq) h s0 beh)) by (apply run_cq_S with (dl := []); auto).
+  destruct (Step_valid_open _ _ _ _ S1 V0 D0) as (V1 & D1).
+  match goal with |- SInv _ (if ?c then _ else _) => destruct c end; [|exact SI1].
+  apply drain_closing_S with (dl := []); auto. apply S1.
+Qed.
+
+Lemma cstep_S s beh o : Inv [] s -> RInv [] s -> SInv [] s -> SInv [] (cstep s beh o).
+Proof.
+  intros I R SI. destruct o; cbn [cstep]; try (apply capi_S with (dl := []); assumption).
+  - apply req_cb_S; auto.
+  - apply batch_S; auto.
+  - apply h_cb_S; auto.
+  - apply fp_stat_S; auto.
+  - assert (Ie : Inv [] (emit s (EIn OPhase))).
+    { apply Inv_emit; auto; try discriminate. intros h [Ha|(r & Hr & _)]; discriminate. }
+    apply run_closing_S.
+    + change (clq s) with (clq (emit s (EIn OPhase))). apply Inv_detach. exact Ie.
+    + apply RInv_plain with (s := s) (l := [EIn OPhase]); auto.
+      * constructor; [apply plain_op; intros; discriminate|constructor].
+      * apply QFS_hs. reflexivity.
+    + apply SInv_plain with (s := s) (l := [EIn OPhase]); auto.
+      * constructor; [apply splain_op; intros; discriminate|constructor].
+      * apply QFS_hs. reflexivity.
+Qed.
+
+Lemma crun_S beh os : forall s, Inv [] s -> RInv [] s -> SInv [] s -> SInv [] (crun s os beh).
+Proof.
+  induction os as [|o os IH]; intros s I R SI; cbn [crun]; auto.
+  apply IH; [apply cstep_inv; exact I|apply cstep_R; auto|apply cstep_S; auto].
+Qed.
+
+Theorem reachable_sinv os beh : SInv [] (crun cinit os beh).
+Proof. apply crun_S; [apply Inv_init|apply RInv_init|apply SInv_init]. Qed.
+
+(* a callback delivered while the handle is closing carries UV_ECANCELED
+   exactly when the request had not completed (no ODone before it); otherwise
+   it carries the recorded result (0 for a non-negative udp send result) *)
+Theorem cancelled_iff_not_completed os beh pre r st post :
+  ctrace os beh = pre ++ EReqCb r st true :: post ->
+  (exists st', In (EIn (ODone r st')) pre /\ mapped st st') \/
+  (~ done_in r pre /\ st = UV_ECANCELED).
+Proof.
+  intros Ht. apply trace_split_hist in Ht.
+  destruct (s_st _ _ (reachable_sinv os beh) (rev post) r st (rev pre) Ht) as [(st' & H & M)|(H & E)].
+  - left. exists st'. split; [apply in_rev; exact H|exact M].
+  - right. split; [|exact E]. intros (st' & H'). apply H. exists st'. apply in_rev in H'. exact H'.
+Qed.
